@@ -1,2490 +1,154 @@
 package rules
 
 import (
-	"fmt"
-	"go/ast"
-	"go/token"
-	"go/types"
-	"strings"
-
-	"golang.org/x/tools/go/cfg"
-	"golang.org/x/tools/go/packages"
-
 	"osmcheck/core"
 )
 
-// Anchors of the C13 rules.
-//   exported API (class 1): annotate.Change, osm.Change{Create,Modify,Delete}, osm.OSM{Nodes,Ways,Relations},
-//     osm.Action{Type,OSM,Old,New}, osm.Diff.Actions, osm.Action{Create,Modify,Delete}, osm.HistoryDatasourcer
-//     {Node,Way,Relation}History/NotFound, osm.{Node,Way,Relation}{,s,ID}, fields Version/Visible/ID,
-//     method FeatureID, core.Options.IgnoreMissingChildren.
-//   role (class 2): addUpdate = the annotate function taking an osm.ActionType that Change calls with change.Modify / change.Delete;
-//     findPrevious{Node,Way,Relation} = the annotate function called in addUpdate's loop over o.Nodes/Ways/Relations
-//     returning (*osm.X, error); checkErr = the annotate function called there returning only error;
-//     max/loc/old/err/currentVisible/ignoreMissing are found by dataflow role, not by name.
-//   unexported names (class 3): none.
+// C13: annotating a change yields the exact old/new diff for every element.
+//
+// The rules do not look at the syntax of annotate/change.go. annotate.Change is executed symbolically on every
+// path (c13_sym.go, c13_call.go, c13_stmt.go): calls to functions of package annotate are executed in place, conditions
+// fork the path and are recorded as atoms in a normal form, loops are summarised by one execution of their body
+// for an arbitrary iteration. The rules then check the resulting paths against the specification, which is stated
+// in terms of the exported API only (sections of the change, datasource methods, osm.Action fields):
+// a decision table per element iteration (c13_table.go), an order-relation table for the history scan
+// (c13_iter.go) and the structure of the returned action list.
 
 func init() {
 	const chg = "annotate/change.go"
 	register(&core.Property{
 		ID:    "C13",
 		Title: "Annotating a change yields the exact old/new diff for every element",
-		Explanation: "Structural necessary conditions, decided on every path of annotate.Change, the function it calls for change.Modify/change.Delete (addUpdate), the three predecessor searches and the error mapper: " +
-			"(S1) the Node/Way/Relation variants of the predecessor search, of the update loop and of the create loop are identical after type-directed renaming; " +
-			"(S2) each predecessor search fetches the history of the element's own id with the history method of its own kind, propagates that error, scans the whole history without break, selects exactly under `cand.Version < own.Version && cand.Version > max` (both strict) with max starting at a constant <= 0 and the index recorded in the same branch, and after the loop returns hist[loc] when found, (nil,nil) only under ignoreMissing and the typed error carrying the element's FeatureID otherwise; " +
-			"(S3) creates are appended before the Modify call, which dominates the Delete call, whose result is the returned Diff.Actions; action types are paired with the matching change section; the accumulator is threaded through every call and returned unchanged for a nil section; Nodes precede Ways precede Relations; every non-error path through a loop body appends exactly one action and never leaves the loop; " +
-			"(S4) created elements and the old==nil fallback get Visible=true and a create action holding the change element; otherwise Visible is false iff the action type is ActionDelete, Type is the caller's action type, Old holds the history element and New the change element; " +
-			"(S5) the error mapper returns nil for nil, nil for not-found only under ignoreMissing, the typed error with the passed id for not-found otherwise and the error itself in all other cases; every call site passes the search's error, the loop element's FeatureID and the caller's ignoreMissing, which is Options.IgnoreMissingChildren, and returns a non-nil result. " +
-			"NOT decided: behaviour of user HistoryDatasourcer implementations (contents of histories, what NotFound answers), aliasing effects of writing Visible through the caller's element pointers, which of the two documented error types (NoHistoryError / NoVisibleChildError) is used, capacity/allocation of the action slice.",
-		Assumptions: []string{"go/types, go/cfg (x/tools v0.29.0)", "valid OSM versions are >= 1", "HistoryDatasourcer.NotFound classifies errors as documented", "append semantics of the Go builtin"},
-		LevelText:   "Structural necessary conditions of the change-annotation semantics, decided for every path of Change/addUpdate/findPrevious*/checkErr: sibling agreement after type-directed renaming, max-below predecessor search shape (strict comparisons, initial maximum below 1, index recorded with the maximum, not-found handling), create/modify/delete and node/way/relation order, exactly one action per element on every non-error path, visibility and Old/New roles by dataflow, error mapping truth table.",
-		LevelNote:   "Trusts the Go type checker and go/cfg. History contents are arbitrary (the search shape is what makes the result independent of order and gaps). Datasource implementations are not analysed.",
-		Technique:   "type-directed AST canonicalisation for sibling comparison + per-function CFG guard analysis (dominators, exclusive-edge reachability) + DAG path counting over loop bodies",
-		DesignRef:   "DESIGN.md §5 C13",
+		Explanation: "annotate.Change is evaluated symbolically on every path, with every call into package annotate executed in place, so the verdicts do not depend on how the code is divided into functions, on statement shapes or on names. Decided: " +
+			"(S1) the per-element behaviour (outcome for each abstract input, datasource call, history scan) of nodes, ways and relations is identical after renaming the kind-specific API names, in each section; " +
+			"(S2) each element of change.Modify/Delete asks the datasource exactly once for the history of its own id with the method of its own kind; the scan of that history keeps an entry exactly when its Version is strictly below the element's own and strictly above the best so far (decided on all nine order relations), starts below every valid version with a sentinel that is not an index, has no other branch, effect or exit; without an earlier version the outcome is a create action exactly under the ignore-missing option and the typed error carrying the element's FeatureID otherwise; " +
+			"(S3) on every success path Diff.Actions is an initially empty list extended by the element loops of exactly the non-nil sections, in the order create < modify < delete and nodes < ways < relations, with nothing appended elsewhere; every path through an iteration that stays in Change appends exactly one action and no path leaves a loop without a non-nil error; " +
+			"(S4) created elements and elements whose missing history is ignored get Visible=true and an ActionCreate action holding exactly the change element; an element with an earlier version gets the action type of its section, Old holding the entry selected by the scan, New holding the change element, and Visible false exactly in change.Delete; " +
+			"(S5) a non-nil history error leads to a create action exactly when NotFound(err) and ignore-missing hold, to the typed error with the element's FeatureID when NotFound(err) holds without ignore-missing, and is returned unchanged otherwise; iteration paths depend on no other condition and have no other effect; the ignore-missing flag is Options.IgnoreMissingChildren read after all options were applied; errors outside element iterations come from applying an option. " +
+			"NOT decided: behaviour of user HistoryDatasourcer implementations (contents of histories, what NotFound answers), aliasing effects of writing Visible through the caller's element pointers, which of the documented error types (NoHistoryError / NoVisibleChildError) is used, capacity/allocation of the action slice, panics on malformed input (nil elements).",
+		Assumptions: []string{"go/types (x/tools v0.29.0)", "valid OSM versions are >= 1", "HistoryDatasourcer.NotFound classifies errors as documented (a function of the error)",
+			"append semantics of the Go builtin", "entries of a history returned by the datasource are non-nil (the scan dereferences every entry)",
+			"one-expression accessor functions of package osm (FeatureID) are evaluated from their source"},
+		LevelText:  "Symbolic evaluation of every path of annotate.Change (callees in package annotate executed in place, loops summarised per iteration) checked against finite decision tables: per element iteration over {history error, NotFound, ignore-missing, earlier version found, history empty}; for the history scan over the nine order relations between the entry's version, the element's version and the best so far; plus the structure (sections, kinds, order, threading) of the returned action list on every success path.",
+		LevelNote:  "Trusts the Go type checker. History contents are arbitrary (the scan table is what makes the result independent of order and gaps). Datasource implementations are not analysed. Code outside the evaluated subset of Go (goroutines, defer, goto, type switches, address of locals) is reported as undecided, not accepted.",
+		Technique:  "path-sensitive symbolic execution over go/ast + go/types with in-place execution of same-package callees, normalised condition atoms, per-iteration loop summaries; finite-domain evaluation of the paths against decision tables",
+		DesignRef:  "DESIGN.md §5 C13",
+		Exhaustive: true,
+		Benign:     c13AllBenign(),
 		Rules: []*core.Rule{
-			{ID: "S1", Floor: 9, Doc: "Node/Way/Relation siblings agree after type-directed renaming", Run: c13S1},
-			{ID: "S2", Floor: 12, Doc: "predecessor search is a strict max-below scan with sound not-found handling", Run: c13S2},
-			{ID: "S3", Floor: 11, Doc: "create<modify<delete, node<way<relation, exactly one action per element", Run: c13S3},
-			{ID: "S4", Floor: 10, Doc: "visibility and Old/New roles", Run: c13S4},
-			{ID: "S5", Floor: 8, Doc: "error mapping truth table and call sites", Run: c13S5},
+			{ID: "S1", Floor: 9, Doc: "node/way/relation iterations agree after kind renaming, per section", Run: c13S1},
+			{ID: "S2", Floor: 12, Doc: "own-kind history of the own id; strict greatest-version-below scan; sound not-found handling", Run: c13S2},
+			{ID: "S3", Floor: 10, Doc: "action list = create<modify<delete, node<way<relation loops of the non-nil sections; exactly one action per element", Run: c13S3},
+			{ID: "S4", Floor: 15, Doc: "visibility, action type and Old/New roles", Run: c13S4},
+			{ID: "S5", Floor: 17, Doc: "error mapping table, effect whitelist, ignore-missing option", Run: c13S5},
 		},
-		Mutants: []core.Mutant{
-			{Name: "find-node-le-own", File: chg, Find: "v < n.Version && v > max", Replace: "v <= n.Version && v > max", ExpectRule: "S2", ExpectConstruct: "select@findPreviousNode"},
-			{Name: "find-relation-max-flipped", File: chg, Find: "v < r.Version && v > max", Replace: "v < r.Version && v < max", ExpectRule: "S2", ExpectConstruct: "select@findPreviousRelation"},
-			{Name: "find-way-max-init-1", File: chg, Find: "loc, max := -1, -1", Nth: 2, Replace: "loc, max := -1, 1", ExpectRule: "S2", ExpectConstruct: "init@findPreviousWay"},
-			{Name: "find-node-break-on-first", File: chg, Find: "\t\t\tmax = v\n\t\t\tloc = i\n", Replace: "\t\t\tmax = v\n\t\t\tloc = i\n\t\t\tbreak\n", ExpectRule: "S2", ExpectConstruct: "select@findPreviousNode"},
-			{Name: "find-relation-missing-never-error", File: chg, Find: "\t\tif ignoreMissing {\n\t\t\treturn nil, nil\n\t\t}\n\t\treturn nil, &NoVisibleChildError{ID: r.FeatureID()}", Replace: "\t\treturn nil, nil", ExpectRule: "S2", ExpectConstruct: "notfound@findPreviousRelation"},
-			{Name: "way-history-error-from-node-history", File: chg, Find: "ways, err := ds.WayHistory(ctx, w.ID)", Replace: "_, err := ds.NodeHistory(ctx, osm.NodeID(w.ID))\n\tways, _ := ds.WayHistory(ctx, w.ID)", ExpectRule: "S1", ExpectConstruct: "findPrevious/Way"},
-			{Name: "way-error-id-as-node-id", File: chg, Find: "ID: w.FeatureID()", Replace: "ID: osm.NodeID(w.ID).FeatureID()", ExpectRule: "S1", ExpectConstruct: "findPrevious/Way"},
-			{Name: "create-relation-as-modify", File: chg, Find: "\t\t\t\tType: osm.ActionCreate,\n\t\t\t\tOSM:  &osm.OSM{Relations: osm.Relations{r}},", Replace: "\t\t\t\tType: osm.ActionModify,\n\t\t\t\tOSM:  &osm.OSM{Relations: osm.Relations{r}},", ExpectRule: "S1", ExpectConstruct: "create-loop/Relation"},
+		Mutants: c13AllMutants([]core.Mutant{
+			{Name: "find-node-le-own", File: chg, Find: "v < n.Version && v > max", Replace: "v <= n.Version && v > max", ExpectRule: "S2", ExpectConstruct: "select@Node"},
+			{Name: "find-relation-max-flipped", File: chg, Find: "v < r.Version && v > max", Replace: "v < r.Version && v < max", ExpectRule: "S2", ExpectConstruct: "select@Relation"},
+			{Name: "find-way-max-not-strict", File: chg, Find: "v < w.Version && v > max", Replace: "v < w.Version && v >= max", ExpectRule: "S2", ExpectConstruct: "select@Way"},
+			{Name: "find-way-max-init-1", File: chg, Find: "loc, max := -1, -1", Nth: 2, Replace: "loc, max := -1, 1", ExpectRule: "S2", ExpectConstruct: "init@Way"},
+			{Name: "find-node-break-on-first", File: chg, Find: "\t\t\tmax = v\n\t\t\tloc = i\n", Replace: "\t\t\tmax = v\n\t\t\tloc = i\n\t\t\tbreak\n", ExpectRule: "S2", ExpectConstruct: "select@Node"},
+			{Name: "find-relation-missing-never-error", File: chg, Find: "\t\tif ignoreMissing {\n\t\t\treturn nil, nil\n\t\t}\n\t\treturn nil, &NoVisibleChildError{ID: r.FeatureID()}", Replace: "\t\treturn nil, nil", ExpectRule: "S2", ExpectConstruct: "notfound@Relation"},
+			{Name: "find-node-found-test-off-by-one", File: chg, Find: "if loc == -1 {", Replace: "if loc <= 0 {", ExpectRule: "S4", ExpectConstruct: "update@Modify/Node"},
+			{Name: "way-history-error-from-node-history", File: chg, Find: "ways, err := ds.WayHistory(ctx, w.ID)", Replace: "_, err := ds.NodeHistory(ctx, osm.NodeID(w.ID))\n\tways, _ := ds.WayHistory(ctx, w.ID)", ExpectRule: "S2", ExpectConstruct: "history@Way"},
+			{Name: "relation-history-of-other-id", File: chg, Find: "ds.RelationHistory(ctx, r.ID)", Replace: "ds.RelationHistory(ctx, r.ID+1)", ExpectRule: "S2", ExpectConstruct: "history@Relation"},
+			{Name: "way-error-id-as-node-id", File: chg, Find: "ID: w.FeatureID()", Replace: "ID: osm.NodeID(w.ID).FeatureID()", ExpectRule: "S2", ExpectConstruct: "notfound@Way"},
+			{Name: "way-sibling-differs", File: chg, Find: "ID: w.FeatureID()", Replace: "ID: osm.NodeID(w.ID).FeatureID()", ExpectRule: "S1", ExpectConstruct: "iteration@Modify/Way"},
+			{Name: "create-relation-as-modify", File: chg, Find: "\t\t\t\tType: osm.ActionCreate,\n\t\t\t\tOSM:  &osm.OSM{Relations: osm.Relations{r}},", Replace: "\t\t\t\tType: osm.ActionModify,\n\t\t\t\tOSM:  &osm.OSM{Relations: osm.Relations{r}},", ExpectRule: "S4", ExpectConstruct: "create@Relation"},
 			{Name: "create-ways-before-nodes", File: chg,
 				Find:       "\t\tfor _, n := range o.Nodes {\n\t\t\tn.Visible = true\n\t\t\tactions = append(actions, osm.Action{\n\t\t\t\tType: osm.ActionCreate,\n\t\t\t\tOSM:  &osm.OSM{Nodes: osm.Nodes{n}},\n\t\t\t})\n\t\t}\n\n\t\tfor _, w := range o.Ways {\n\t\t\tw.Visible = true\n\t\t\tactions = append(actions, osm.Action{\n\t\t\t\tType: osm.ActionCreate,\n\t\t\t\tOSM:  &osm.OSM{Ways: osm.Ways{w}},\n\t\t\t})\n\t\t}\n",
 				Replace:    "\t\tfor _, w := range o.Ways {\n\t\t\tw.Visible = true\n\t\t\tactions = append(actions, osm.Action{\n\t\t\t\tType: osm.ActionCreate,\n\t\t\t\tOSM:  &osm.OSM{Ways: osm.Ways{w}},\n\t\t\t})\n\t\t}\n\n\t\tfor _, n := range o.Nodes {\n\t\t\tn.Visible = true\n\t\t\tactions = append(actions, osm.Action{\n\t\t\t\tType: osm.ActionCreate,\n\t\t\t\tOSM:  &osm.OSM{Nodes: osm.Nodes{n}},\n\t\t\t})\n\t\t}\n",
-				ExpectRule: "S3", ExpectConstruct: "kind-order@Change"},
+				ExpectRule: "S3", ExpectConstruct: "actions@Change"},
 			{Name: "modify-delete-order-swapped", File: chg,
 				Find:       "actions, err := addUpdate(ctx, actions, change.Modify, osm.ActionModify, ds, ignoreMissing)\n\tif err != nil {\n\t\treturn nil, err\n\t}\n\n\t// delete\n\tactions, err = addUpdate(ctx, actions, change.Delete, osm.ActionDelete, ds, ignoreMissing)",
 				Replace:    "actions, err := addUpdate(ctx, actions, change.Delete, osm.ActionDelete, ds, ignoreMissing)\n\tif err != nil {\n\t\treturn nil, err\n\t}\n\n\t// delete\n\tactions, err = addUpdate(ctx, actions, change.Modify, osm.ActionModify, ds, ignoreMissing)",
-				ExpectRule: "S3", ExpectConstruct: "order@Change modify-before-delete"},
-			{Name: "delete-section-as-modify", File: chg, Find: "change.Delete, osm.ActionDelete", Replace: "change.Delete, osm.ActionModify", ExpectRule: "S3", ExpectConstruct: "order@Change modify-before-delete"},
-			{Name: "drop-append-way-fallback", File: chg, Find: "\t\t\tw.Visible = true\n\t\t\tactions = append(actions, osm.Action{\n\t\t\t\tType: osm.ActionCreate,\n\t\t\t\tOSM:  &osm.OSM{Ways: osm.Ways{w}},\n\t\t\t})\n\t\t\tcontinue", Replace: "\t\t\tw.Visible = true\n\t\t\tcontinue", ExpectRule: "S3", ExpectConstruct: "one-action@addUpdate/Way"},
-			{Name: "nil-section-drops-actions", File: chg, Find: "if o == nil {\n\t\treturn actions, nil", Replace: "if o == nil {\n\t\treturn nil, nil", ExpectRule: "S3", ExpectConstruct: "threading@addUpdate"},
-			{Name: "swap-old-new-relation", File: chg, Find: "Old:  &osm.OSM{Relations: osm.Relations{old}},\n\t\t\tNew:  &osm.OSM{Relations: osm.Relations{r}},", Replace: "Old:  &osm.OSM{Relations: osm.Relations{r}},\n\t\t\tNew:  &osm.OSM{Relations: osm.Relations{old}},", ExpectRule: "S4", ExpectConstruct: "update@addUpdate/Relation"},
-			{Name: "delete-visible-true", File: chg, Find: "currentVisible = false", Replace: "currentVisible = true", ExpectRule: "S4", ExpectConstruct: "visible-flag@addUpdate"},
-			{Name: "create-way-not-visible", File: chg, Find: "w.Visible = true", Replace: "w.Visible = false", ExpectRule: "S4", ExpectConstruct: "create@Change/Way"},
-			{Name: "node-update-type-constant", File: chg, Find: "Type: actionType,\n\t\t\tOld:  &osm.OSM{Nodes", Replace: "Type: osm.ActionModify,\n\t\t\tOld:  &osm.OSM{Nodes", ExpectRule: "S4", ExpectConstruct: "update@addUpdate/Node"},
-			{Name: "fallback-node-visible-from-flag", File: chg, Find: "n.Visible = true", Nth: 2, Replace: "n.Visible = currentVisible", ExpectRule: "S4", ExpectConstruct: "fallback@addUpdate/Node"},
-			{Name: "checkerr-nil-without-ignore", File: chg, Find: "return &NoVisibleChildError{ID: id}", Replace: "return nil", ExpectRule: "S5", ExpectConstruct: "return@checkErr"},
-			{Name: "checkerr-swallows-other-errors", File: chg, Find: "\treturn err\n}\n\nfunc findPreviousNode", Replace: "\treturn nil\n}\n\nfunc findPreviousNode", ExpectRule: "S5", ExpectConstruct: "return@checkErr"},
-			{Name: "checkerr-ignore-inverted", File: chg, Find: "\t\tif ignoreMissing {\n\t\t\treturn nil\n\t\t}", Replace: "\t\tif !ignoreMissing {\n\t\t\treturn nil\n\t\t}", ExpectRule: "S5", ExpectConstruct: "return@checkErr"},
-			{Name: "callsite-way-always-ignores", File: chg, Find: "checkErr(ds, ignoreMissing, err, w.FeatureID())", Replace: "checkErr(ds, true, err, w.FeatureID())", ExpectRule: "S5", ExpectConstruct: "call@addUpdate/Way"},
-		},
+				ExpectRule: "S3", ExpectConstruct: "actions@Change"},
+			{Name: "delete-section-as-modify", File: chg, Find: "change.Delete, osm.ActionDelete", Replace: "change.Delete, osm.ActionModify", ExpectRule: "S4", ExpectConstruct: "update@Delete/"},
+			{Name: "drop-append-way-fallback", File: chg, Find: "\t\t\tw.Visible = true\n\t\t\tactions = append(actions, osm.Action{\n\t\t\t\tType: osm.ActionCreate,\n\t\t\t\tOSM:  &osm.OSM{Ways: osm.Ways{w}},\n\t\t\t})\n\t\t\tcontinue", Replace: "\t\t\tw.Visible = true\n\t\t\tcontinue", ExpectRule: "S3", ExpectConstruct: "one-action@Modify/Way"},
+			{Name: "nil-section-drops-actions", File: chg, Find: "if o == nil {\n\t\treturn actions, nil", Replace: "if o == nil {\n\t\treturn nil, nil", ExpectRule: "S3", ExpectConstruct: "actions@Change"},
+			{Name: "modify-result-not-threaded", File: chg, Find: "actions, err = addUpdate(ctx, actions, change.Delete", Replace: "actions, err = addUpdate(ctx, nil, change.Delete", ExpectRule: "S3", ExpectConstruct: "actions@Change"},
+			{Name: "swap-old-new-relation", File: chg, Find: "Old:  &osm.OSM{Relations: osm.Relations{old}},\n\t\t\tNew:  &osm.OSM{Relations: osm.Relations{r}},", Replace: "Old:  &osm.OSM{Relations: osm.Relations{r}},\n\t\t\tNew:  &osm.OSM{Relations: osm.Relations{old}},", ExpectRule: "S4", ExpectConstruct: "update@Modify/Relation"},
+			{Name: "delete-visible-true", File: chg, Find: "currentVisible = false", Replace: "currentVisible = true", ExpectRule: "S4", ExpectConstruct: "update@Delete/Node"},
+			{Name: "create-way-not-visible", File: chg, Find: "w.Visible = true", Replace: "w.Visible = false", ExpectRule: "S4", ExpectConstruct: "create@Way"},
+			{Name: "node-update-type-constant", File: chg, Find: "Type: actionType,\n\t\t\tOld:  &osm.OSM{Nodes", Replace: "Type: osm.ActionModify,\n\t\t\tOld:  &osm.OSM{Nodes", ExpectRule: "S4", ExpectConstruct: "update@Delete/Node"},
+			{Name: "fallback-node-visible-from-flag", File: chg, Find: "n.Visible = true", Nth: 2, Replace: "n.Visible = currentVisible", ExpectRule: "S4", ExpectConstruct: "fallback@Delete/Node"},
+			{Name: "checkerr-nil-without-ignore", File: chg, Find: "return &NoVisibleChildError{ID: id}", Replace: "return nil", ExpectRule: "S5", ExpectConstruct: "errmap@Node not-found"},
+			{Name: "checkerr-swallows-other-errors", File: chg, Find: "\treturn err\n}\n\nfunc findPreviousNode", Replace: "\treturn nil\n}\n\nfunc findPreviousNode", ExpectRule: "S5", ExpectConstruct: "errmap@Way other-error"},
+			{Name: "checkerr-ignore-inverted", File: chg, Find: "\t\tif ignoreMissing {\n\t\t\treturn nil\n\t\t}", Replace: "\t\tif !ignoreMissing {\n\t\t\treturn nil\n\t\t}", ExpectRule: "S5", ExpectConstruct: "errmap@Relation not-found+ignore"},
+			{Name: "callsite-way-always-ignores", File: chg, Find: "checkErr(ds, ignoreMissing, err, w.FeatureID())", Replace: "checkErr(ds, true, err, w.FeatureID())", ExpectRule: "S5", ExpectConstruct: "errmap@Way not-found"},
+			{Name: "option-read-before-applied", File: chg,
+				Find:       "\tcomputeOpts := &core.Options{}\n\tfor _, o := range opts {\n\t\terr := o(computeOpts)\n\t\tif err != nil {\n\t\t\treturn nil, err\n\t\t}\n\t}\n\tignoreMissing := computeOpts.IgnoreMissingChildren\n",
+				Replace:    "\tcomputeOpts := &core.Options{}\n\tignoreMissing := computeOpts.IgnoreMissingChildren\n\tfor _, o := range opts {\n\t\terr := o(computeOpts)\n\t\tif err != nil {\n\t\t\treturn nil, err\n\t\t}\n\t}\n",
+				ExpectRule: "S5", ExpectConstruct: "ignore-option@Change"},
+		}),
 	})
 }
 
-const c13OsmPath = core.ModulePath
-
-// c13Kinds are the kind-dependent exported names of package osm (Node <-> Way <-> Relation).
-var c13Kinds = [3]struct{ Elem, Elems, ID, Hist string }{
-	{"Node", "Nodes", "NodeID", "NodeHistory"},
-	{"Way", "Ways", "WayID", "WayHistory"},
-	{"Relation", "Relations", "RelationID", "RelationHistory"},
+// c13Eval is one evaluation of the decision table: an abstract input covered by a path.
+type c13Eval struct {
+	c        []int
+	p        *c13UPath
+	expected string
+	actual   string
 }
 
-// c13KindOfElem returns the kind of (a pointer to) osm.Node/Way/Relation, or -1.
-func c13KindOfElem(t types.Type) int {
-	np := namedPath(t)
-	for k, kn := range c13Kinds {
-		if np == c13OsmPath+"."+kn.Elem {
-			return k
-		}
+// tableCells evaluates the decision table of an element loop; uncovered lists the abstract inputs no path covers.
+func (m *c13Model) tableCells(el *c13ELoop) (cells []c13Eval, uncovered [][]int) {
+	dom := c13UpdDom
+	if el.sec == 0 {
+		dom = c13CreateDom
 	}
-	return -1
-}
-
-// c13KindOfSlice returns the kind of a slice of element pointers (osm.Nodes, []*osm.Way, ...), or -1.
-func c13KindOfSlice(t types.Type) int {
-	if t == nil {
-		return -1
+	for _, p := range el.paths {
+		m.interpret(p)
 	}
-	if sl, ok := t.Underlying().(*types.Slice); ok {
-		return c13KindOfElem(sl.Elem())
-	}
-	return -1
-}
-
-// c13Model holds the role-resolved mechanism of the property.
-type c13Model struct {
-	pk   *packages.Package
-	info *types.Info
-	fset *token.FileSet
-
-	change, addUpdate, checkErr *FuncInfo
-	find                        [3]*FuncInfo
-	createLoops, updLoops       [3]*ast.RangeStmt
-	modCall, delCall            *ast.CallExpr
-
-	osmFields                            [3]*types.Var // osm.OSM.Nodes / Ways / Relations
-	chgCreate, chgModify, chgDelete      *types.Var    // osm.Change fields
-	actCreate, actModify, actDelete      types.Object  // osm.Action* constants
-	actType, actOSM, actOld, actNew      *types.Var    // osm.Action fields
-	diffActions                          *types.Var    // osm.Diff.Actions
-	gChange, gAdd                        *cfg.CFG
-	domChange, domAdd                    map[*cfg.Block]map[*cfg.Block]bool
-	accParam, secParam, typParam, ignPar *types.Var // addUpdate parameters by role
-}
-
-func c13Field(st *types.Struct, name string) *types.Var {
-	if st == nil {
-		return nil
-	}
-	for i := 0; i < st.NumFields(); i++ {
-		if st.Field(i).Name() == name {
-			return st.Field(i)
-		}
-	}
-	return nil
-}
-
-func c13FuncByObj(pk *packages.Package, fn *types.Func) *FuncInfo {
-	for _, fi := range allFuncs(pk) {
-		if fi.Obj == fn {
-			return fi
-		}
-	}
-	return nil
-}
-
-// c13ElemLoops finds the range loops over slices of node/way/relation pointers directly in body.
-func c13ElemLoops(info *types.Info, body *ast.BlockStmt) ([3]*ast.RangeStmt, string) {
-	var out [3]*ast.RangeStmt
-	why := ""
-	inspectNoLit(body, func(n ast.Node) bool {
-		rs, ok := n.(*ast.RangeStmt)
-		if !ok {
-			return true
-		}
-		k := c13KindOfSlice(info.TypeOf(rs.X))
-		if k < 0 {
-			return true
-		}
-		if out[k] != nil {
-			why = "more than one loop over " + c13Kinds[k].Elems
-		}
-		out[k] = rs
-		return true
-	})
-	return out, why
-}
-
-// c13Load resolves the mechanism; it emits anchors and returns nil when something does not resolve.
-func c13Load(r *core.R) *c13Model {
-	pk, osmPk := r.P.Pkg("annotate"), r.P.Pkg("")
-	if pk == nil || osmPk == nil {
-		r.Anchor("packages osm and osm/annotate")
-		return nil
-	}
-	m := &c13Model{pk: pk, info: pk.TypesInfo, fset: r.P.Fset}
-	_, ost := structType(osmPk, "OSM")
-	_, cst := structType(osmPk, "Change")
-	_, ast_ := structType(osmPk, "Action")
-	_, dst := structType(osmPk, "Diff")
-	for k, kn := range c13Kinds {
-		m.osmFields[k] = c13Field(ost, kn.Elems)
-	}
-	m.chgCreate, m.chgModify, m.chgDelete = c13Field(cst, "Create"), c13Field(cst, "Modify"), c13Field(cst, "Delete")
-	m.actType, m.actOSM, m.actOld, m.actNew = c13Field(ast_, "Type"), c13Field(ast_, "OSM"), c13Field(ast_, "Old"), c13Field(ast_, "New")
-	m.diffActions = c13Field(dst, "Actions")
-	sc := osmPk.Types.Scope()
-	m.actCreate, m.actModify, m.actDelete = sc.Lookup("ActionCreate"), sc.Lookup("ActionModify"), sc.Lookup("ActionDelete")
-	if m.osmFields[0] == nil || m.osmFields[1] == nil || m.osmFields[2] == nil || m.chgCreate == nil || m.chgModify == nil || m.chgDelete == nil ||
-		m.actType == nil || m.actOSM == nil || m.actOld == nil || m.actNew == nil || m.diffActions == nil || m.actCreate == nil || m.actModify == nil || m.actDelete == nil {
-		r.Anchor("osm.OSM/Change/Action/Diff fields and osm.Action* constants")
-		return nil
-	}
-	if m.change = findFunc(pk, "Change"); m.change == nil {
-		r.Anchor("annotate.Change")
-		return nil
-	}
-	var why string
-	if m.createLoops, why = c13ElemLoops(m.info, m.change.Decl.Body); why != "" {
-		r.Anchor("create loops of annotate.Change (" + why + ")")
-		return nil
-	}
-	// addUpdate: the annotate function called with change.Modify / change.Delete
-	var callees []*types.Func
-	inspectNoLit(m.change.Decl.Body, func(n ast.Node) bool {
-		call, ok := n.(*ast.CallExpr)
-		if !ok {
-			return true
-		}
-		fn := callee(m.info, call)
-		if fn == nil || fn.Pkg() != pk.Types {
-			return true
-		}
-		takesType := false
-		for ps, i := fn.Type().(*types.Signature).Params(), 0; i < ps.Len(); i++ {
-			if namedPath(ps.At(i).Type()) == c13OsmPath+".ActionType" {
-				takesType = true
-			}
-		}
-		if !takesType {
-			return true // e.g. the capacity computation osmCount(change.Modify)
-		}
-		for _, a := range call.Args {
-			switch fieldOf(m.info, a) {
-			case m.chgModify:
-				if m.modCall != nil && m.modCall != call {
-					why = "change.Modify is handed to more than one call"
+	// abstract inputs excluded by what the calling context has established (the option tested outside the loop)
+	ctx := dom.all()
+	if el.sec != 0 && len(el.paths) > 0 {
+		if st := el.paths[0].st; el.l.pcLen <= len(st.pc) {
+			for _, a := range st.pc[:el.l.pcLen] {
+				if m.isIgnoreOption(a.t) {
+					c13Restrict(ctx, c13VIgn, []int{0, 1}, a.val)
 				}
-				m.modCall = call
-				callees = append(callees, fn)
-			case m.chgDelete:
-				if m.delCall != nil && m.delCall != call {
-					why = "change.Delete is handed to more than one call"
-				}
-				m.delCall = call
-				callees = append(callees, fn)
-			}
-		}
-		return true
-	})
-	if m.modCall == nil || m.delCall == nil || why != "" || len(callees) != 2 || callees[0] != callees[1] {
-		r.Anchor("the one annotate function Change calls once with change.Modify and once with change.Delete " + why)
-		return nil
-	}
-	if m.addUpdate = c13FuncByObj(pk, callees[0]); m.addUpdate == nil {
-		r.Anchor("declaration of " + callees[0].Name())
-		return nil
-	}
-	if m.updLoops, why = c13ElemLoops(m.info, m.addUpdate.Decl.Body); why != "" {
-		r.Anchor("element loops of " + m.addUpdate.Name() + " (" + why + ")")
-		return nil
-	}
-	for k := range c13Kinds {
-		if m.createLoops[k] == nil {
-			r.Anchor("loop over created " + c13Kinds[k].Elems + " in annotate.Change")
-			return nil
-		}
-		if m.updLoops[k] == nil {
-			r.Anchor("loop over " + c13Kinds[k].Elems + " in " + m.addUpdate.Name())
-			return nil
-		}
-	}
-	// findPrevious* and checkErr by role
-	errT := types.Universe.Lookup("error").Type()
-	for k := range c13Kinds {
-		var ce *types.Func
-		inspectNoLit(m.updLoops[k].Body, func(n ast.Node) bool {
-			call, ok := n.(*ast.CallExpr)
-			if !ok {
-				return true
-			}
-			fn := callee(m.info, call)
-			if fn == nil || fn.Pkg() != pk.Types || fn.Type().(*types.Signature).Recv() != nil {
-				return true
-			}
-			res := fn.Type().(*types.Signature).Results()
-			switch {
-			case res.Len() == 2 && c13KindOfElem(res.At(0).Type()) == k && types.Identical(res.At(1).Type(), errT):
-				if fi := c13FuncByObj(pk, fn); fi != nil {
-					m.find[k] = fi
-				}
-			case res.Len() == 1 && types.Identical(res.At(0).Type(), errT):
-				ce = fn
-			}
-			return true
-		})
-		if m.find[k] == nil {
-			r.Anchor("predecessor search called in the loop over " + c13Kinds[k].Elems + " of " + m.addUpdate.Name())
-			return nil
-		}
-		if ce == nil || (m.checkErr != nil && m.checkErr.Obj != ce) {
-			r.Anchor("error mapper called in the loop over " + c13Kinds[k].Elems + " of " + m.addUpdate.Name())
-			return nil
-		}
-		if m.checkErr = c13FuncByObj(pk, ce); m.checkErr == nil {
-			r.Anchor("declaration of " + ce.Name())
-			return nil
-		}
-	}
-	// addUpdate parameters by role: accumulator ([]osm.Action), section (*osm.OSM), action type, ignoreMissing (bool)
-	sig := m.addUpdate.Obj.Type().(*types.Signature)
-	nbool := 0
-	for i := 0; i < sig.Params().Len(); i++ {
-		p := sig.Params().At(i)
-		switch {
-		case namedPath(p.Type()) == c13OsmPath+".OSM":
-			m.secParam = p
-		case namedPath(p.Type()) == c13OsmPath+".ActionType":
-			m.typParam = p
-		case types.Identical(p.Type(), types.Typ[types.Bool]):
-			m.ignPar = p
-			nbool++
-		default:
-			if sl, ok := p.Type().Underlying().(*types.Slice); ok && namedPath(sl.Elem()) == c13OsmPath+".Action" {
-				m.accParam = p
 			}
 		}
 	}
-	if m.secParam == nil || m.typParam == nil || m.ignPar == nil || nbool != 1 || m.accParam == nil {
-		r.Anchor("parameters of " + m.addUpdate.Name() + " (action slice, *osm.OSM section, osm.ActionType, one bool)")
-		return nil
-	}
-	m.gChange = newCFG(m.info, m.change.Decl.Body)
-	m.domChange = dominators(m.gChange)
-	m.gAdd = newCFG(m.info, m.addUpdate.Decl.Body)
-	m.domAdd = dominators(m.gAdd)
-	return m
-}
-
-// ---------------------------------------------------------------------------------------------
-// CFG helpers
-
-func c13LoopBlocks(g *cfg.CFG, rs *ast.RangeStmt) (head, done *cfg.Block) {
-	for _, b := range g.Blocks {
-		if b.Stmt == rs && b.Live {
-			switch b.Kind {
-			case cfg.KindRangeLoop:
-				head = b
-			case cfg.KindRangeDone:
-				done = b
+	for _, c := range dom.combos() {
+		if !c13Covers(ctx, c) {
+			continue
+		}
+		covered := false
+		for _, p := range el.paths {
+			if !c13Covers(p.allowed, c) {
+				continue
 			}
+			covered = true
+			exp := "create"
+			if el.sec != 0 {
+				exp = c13Expected(c)
+			}
+			cells = append(cells, c13Eval{c, p, exp, m.outcome(p)})
+		}
+		if !covered {
+			uncovered = append(uncovered, c)
 		}
 	}
 	return
 }
 
-// c13CondOf returns the branch condition of a two-way block (nil for loop heads and others).
-func c13CondOf(b *cfg.Block) ast.Expr {
-	if !b.Live || len(b.Succs) != 2 || len(b.Nodes) == 0 {
-		return nil
+func (m *c13Model) domOf(el *c13ELoop) *c13Dom {
+	if el.sec == 0 {
+		return c13CreateDom
 	}
-	e, _ := b.Nodes[len(b.Nodes)-1].(ast.Expr)
-	return e
+	return c13UpdDom
 }
 
-// c13Atom is an atomic condition known to hold (val) at some program point.
-type c13Atom struct {
-	e   ast.Expr
-	val bool
-	blk *cfg.Block
-}
-
-// c13Split decomposes a condition with known truth value into atoms (a && b true, a || b false, !a).
-func c13Split(e ast.Expr, val bool, blk *cfg.Block) []c13Atom {
-	e = ast.Unparen(e)
-	switch x := e.(type) {
-	case *ast.UnaryExpr:
-		if x.Op == token.NOT {
-			return c13Split(x.X, !val, blk)
-		}
-	case *ast.BinaryExpr:
-		if (x.Op == token.LAND && val) || (x.Op == token.LOR && !val) {
-			return append(c13Split(x.X, val, blk), c13Split(x.Y, val, blk)...)
-		}
-	}
-	return []c13Atom{{e, val, blk}}
-}
-
-// c13GuardsAt lists the atomic conditions that hold on entry to target: for every dominating two-way
-// block the target is reachable from exactly one edge without passing through that block again.
-func c13GuardsAt(g *cfg.CFG, dom map[*cfg.Block]map[*cfg.Block]bool, target *cfg.Block) []c13Atom {
-	var out []c13Atom
-	for _, c := range g.Blocks {
-		e := c13CondOf(c)
-		if e == nil || c == target || !dom[target][c] {
-			continue
-		}
-		c := c
-		stop := func(b *cfg.Block) bool { return b == c }
-		t := reachableFrom([]*cfg.Block{c.Succs[0]}, stop)[target]
-		f := reachableFrom([]*cfg.Block{c.Succs[1]}, stop)[target]
-		switch {
-		case t && !f:
-			out = append(out, c13Split(e, true, c)...)
-		case f && !t:
-			out = append(out, c13Split(e, false, c)...)
-		}
-	}
-	return out
-}
-
-func c13Negate(op token.Token) token.Token {
-	switch op {
-	case token.LSS:
-		return token.GEQ
-	case token.GEQ:
-		return token.LSS
-	case token.GTR:
-		return token.LEQ
-	case token.LEQ:
-		return token.GTR
-	case token.EQL:
-		return token.NEQ
-	case token.NEQ:
-		return token.EQL
-	}
-	return token.ILLEGAL
-}
-
-func c13Flip(op token.Token) token.Token {
-	switch op {
-	case token.LSS:
-		return token.GTR
-	case token.GTR:
-		return token.LSS
-	case token.LEQ:
-		return token.GEQ
-	case token.GEQ:
-		return token.LEQ
-	}
-	return op
-}
-
-// c13Cmp reads an atom as a comparison x op y that holds (negating op when the atom is false).
-func c13Cmp(a c13Atom) (x, y ast.Expr, op token.Token, ok bool) {
-	be, isBin := ast.Unparen(a.e).(*ast.BinaryExpr)
-	if !isBin {
-		return nil, nil, token.ILLEGAL, false
-	}
-	op = be.Op
-	switch op {
-	case token.LSS, token.GTR, token.LEQ, token.GEQ, token.EQL, token.NEQ:
-	default:
-		return nil, nil, token.ILLEGAL, false
-	}
-	if !a.val {
-		op = c13Negate(op)
-	}
-	return be.X, be.Y, op, true
-}
-
-func c13IsNil(info *types.Info, e ast.Expr) bool {
-	id, ok := ast.Unparen(e).(*ast.Ident)
-	if !ok {
-		return false
-	}
-	_, isNil := info.Uses[id].(*types.Nil)
-	return isNil
-}
-
-// c13NilTest reads an atom as `obj == nil` (true) / `obj != nil` (false) that holds.
-func c13NilTest(info *types.Info, a c13Atom) (obj types.Object, isNil, ok bool) {
-	x, y, op, okc := c13Cmp(a)
-	if !okc || (op != token.EQL && op != token.NEQ) {
-		return nil, false, false
-	}
-	switch {
-	case c13IsNil(info, y):
-		obj = objOf(info, x)
-	case c13IsNil(info, x):
-		obj = objOf(info, y)
-	}
-	if obj == nil {
-		return nil, false, false
-	}
-	return obj, op == token.EQL, true
-}
-
-func c13ReturnOf(b *cfg.Block) *ast.ReturnStmt {
-	for _, n := range b.Nodes {
-		if rs, ok := n.(*ast.ReturnStmt); ok {
-			return rs
-		}
-	}
-	return nil
-}
-
-func c13ConstBool(info *types.Info, e ast.Expr) (val, ok bool) {
-	tv, found := info.Types[e]
-	if !found || tv.Value == nil {
-		return false, false
-	}
-	switch tv.Value.String() {
-	case "true":
-		return true, true
-	case "false":
-		return false, true
-	}
-	return false, false
-}
-
-// c13AssignsTo lists (lhs index, statement) of every assignment/definition of obj in body.
-type c13Assign struct {
-	stmt ast.Node // *ast.AssignStmt, *ast.ValueSpec, *ast.IncDecStmt or *ast.RangeStmt
-	rhs  ast.Expr // nil when not a 1:1 assignment
-}
-
-func c13AssignsTo(info *types.Info, body ast.Node, obj types.Object) []c13Assign {
-	var out []c13Assign
-	ast.Inspect(body, func(n ast.Node) bool {
-		switch s := n.(type) {
-		case *ast.AssignStmt:
-			for i, l := range s.Lhs {
-				if objOf(info, l) == obj {
-					var rhs ast.Expr
-					if len(s.Lhs) == len(s.Rhs) && (s.Tok == token.ASSIGN || s.Tok == token.DEFINE) {
-						rhs = s.Rhs[i]
-					}
-					out = append(out, c13Assign{s, rhs})
-				}
-			}
-		case *ast.ValueSpec:
-			for i, nm := range s.Names {
-				if info.Defs[nm] == obj {
-					var rhs ast.Expr
-					if len(s.Values) == len(s.Names) {
-						rhs = s.Values[i]
-					}
-					out = append(out, c13Assign{s, rhs})
-				}
-			}
-		case *ast.IncDecStmt:
-			if objOf(info, s.X) == obj {
-				out = append(out, c13Assign{s, nil})
-			}
-		case *ast.RangeStmt:
-			if (s.Key != nil && objOf(info, s.Key) == obj) || (s.Value != nil && objOf(info, s.Value) == obj) {
-				out = append(out, c13Assign{s, nil})
-			}
-		case *ast.UnaryExpr:
-			if s.Op == token.AND && objOf(info, s.X) == obj {
-				out = append(out, c13Assign{s, nil}) // address taken: may be written anywhere
-			}
-		}
-		return true
-	})
-	return out
-}
-
-// c13ObjQ resolves an identifier or a package-qualified identifier (osm.ActionDelete).
-func c13ObjQ(info *types.Info, e ast.Expr) types.Object {
-	if sel, ok := ast.Unparen(e).(*ast.SelectorExpr); ok {
-		if _, isPkg := objOf(info, sel.X).(*types.PkgName); isPkg {
-			return info.Uses[sel.Sel]
-		}
-		return nil
-	}
-	return objOf(info, e)
-}
-
-func c13Within(n ast.Node, outer ast.Node) bool {
-	return outer.Pos() <= n.Pos() && n.End() <= outer.End()
-}
-
-// ---------------------------------------------------------------------------------------------
-// S1 sibling consistency
-
-type c13Tok struct {
-	s    string
-	stmt ast.Node // innermost enclosing statement (diagnostic)
-}
-
-// c13Canon turns a sibling's syntax into a token stream in which identifiers are replaced by the role of
-// the object they resolve to: kind-dependent API names of the sibling's own kind become placeholders,
-// locals are numbered by first occurrence, variables of the enclosing function keep a per-group identity.
-type c13Canon struct {
-	m        *c13Model
-	kind     int
-	lo, hi   token.Pos
-	locals   map[types.Object]int
-	outer    map[types.Object]int // shared by the siblings of one group
-	toks     []c13Tok
-	stmts    []ast.Node // statement stack of the walk in progress
-	nKindDep int
-}
-
-func (c *c13Canon) typeStr(t types.Type) string {
-	switch x := t.(type) {
-	case *types.Pointer:
-		return "*" + c.typeStr(x.Elem())
-	case *types.Slice:
-		return "[]" + c.typeStr(x.Elem())
-	case *types.Array:
-		return fmt.Sprintf("[%d]%s", x.Len(), c.typeStr(x.Elem()))
-	case *types.Map:
-		return "map[" + c.typeStr(x.Key()) + "]" + c.typeStr(x.Elem())
-	case *types.Basic:
-		return x.Name()
-	case *types.Named:
-		o := x.Obj()
-		if o.Pkg() == nil {
-			return o.Name()
-		}
-		if o.Pkg().Path() == c13OsmPath {
-			kn := c13Kinds[c.kind]
-			switch o.Name() {
-			case kn.Elem:
-				c.nKindDep++
-				return "<Elem>"
-			case kn.Elems:
-				c.nKindDep++
-				return "<Elems>"
-			case kn.ID:
-				c.nKindDep++
-				return "<ElemID>"
-			}
-		}
-		return o.Pkg().Path() + "." + o.Name()
-	}
-	return types.TypeString(t, nil)
-}
-
-func (c *c13Canon) ident(id *ast.Ident) string {
-	info := c.m.info
-	obj := info.Uses[id]
-	if obj == nil {
-		obj = info.Defs[id]
-	}
-	if obj == nil {
-		if id.Name == "_" {
-			return "_"
-		}
-		return "?" + id.Name
-	}
-	switch o := obj.(type) {
-	case *types.PkgName:
-		return "pkg:" + o.Imported().Path()
-	case *types.Nil:
-		return "nil"
-	case *types.Builtin:
-		return "builtin:" + o.Name()
-	case *types.TypeName:
-		return "T:" + c.typeStr(o.Type())
-	case *types.Const:
-		if o.Pkg() == nil {
-			return "U:" + o.Name()
-		}
-		return "C:" + o.Pkg().Path() + "." + o.Name()
-	case *types.Func:
-		sig := o.Type().(*types.Signature)
-		if recv := sig.Recv(); recv != nil {
-			if namedPath(recv.Type()) == c13OsmPath+".HistoryDatasourcer" && o.Name() == c13Kinds[c.kind].Hist {
-				c.nKindDep++
-				return "M:<History>"
-			}
-			return "M:" + c.typeStr(recv.Type()) + "." + o.Name()
-		}
-		if c.m.find[c.kind] != nil && o == c.m.find[c.kind].Obj {
-			c.nKindDep++
-			return "F:<findPrevious>"
-		}
-		if o.Pkg() == nil {
-			return "F:" + o.Name()
-		}
-		return "F:" + o.Pkg().Path() + "." + o.Name()
-	case *types.Var:
-		if o.IsField() {
-			if o == c.m.osmFields[c.kind] {
-				c.nKindDep++
-				return "fld:<OSM.Elems>"
-			}
-			return "fld:" + o.Name() + ":" + c.typeStr(o.Type())
-		}
-		if o.Pkg() != nil && o.Parent() == o.Pkg().Scope() {
-			return "V:" + o.Pkg().Path() + "." + o.Name()
-		}
-		if c.lo <= o.Pos() && o.Pos() < c.hi {
-			n, seen := c.locals[o]
-			if !seen {
-				n = len(c.locals) + 1
-				c.locals[o] = n
-				return fmt.Sprintf("L%d:%s", n, c.typeStr(o.Type()))
-			}
-			return fmt.Sprintf("L%d", n)
-		}
-		n, seen := c.outer[o]
-		if !seen {
-			n = len(c.outer) + 1
-			c.outer[o] = n
-		}
-		return fmt.Sprintf("O%d", n)
-	}
-	return "?" + id.Name
-}
-
-func c13Has(b bool) string {
-	if b {
-		return "1"
-	}
-	return "0"
-}
-
-func (c *c13Canon) walk(root ast.Node) {
-	type frame struct {
-		close  bool
-		isStmt bool
-	}
-	var stack []frame
-	cur := func() ast.Node {
-		if len(c.stmts) == 0 {
-			return root
-		}
-		return c.stmts[len(c.stmts)-1]
-	}
-	emit := func(s string) { c.toks = append(c.toks, c13Tok{s, cur()}) }
-	ast.Inspect(root, func(n ast.Node) bool {
-		if n == nil {
-			f := stack[len(stack)-1]
-			stack = stack[:len(stack)-1]
-			if f.close {
-				emit(")")
-			}
-			if f.isStmt {
-				c.stmts = c.stmts[:len(c.stmts)-1]
-			}
-			return true
-		}
-		switch x := n.(type) {
-		case *ast.CommentGroup, *ast.Comment:
-			return false
-		case *ast.Ident:
-			emit(c.ident(x))
-			return false
-		case *ast.BasicLit:
-			emit(x.Kind.String() + ":" + x.Value)
-			return false
-		case *ast.ParenExpr:
-			stack = append(stack, frame{})
-			return true
-		case *ast.BinaryExpr:
-			// `a > b` and `b < a` are the same comparison: print the mirrored form
-			if x.Op == token.GTR || x.Op == token.GEQ {
-				emit("BinaryExpr" + c13Flip(x.Op).String() + "(")
-				c.walk(x.Y)
-				c.walk(x.X)
-				emit(")")
-				return false
-			}
-		}
-		_, isStmt := n.(ast.Stmt)
-		if isStmt {
-			c.stmts = append(c.stmts, n)
-		}
-		t := strings.TrimPrefix(fmt.Sprintf("%T", n), "*ast.")
-		switch x := n.(type) {
-		case *ast.BinaryExpr:
-			t += x.Op.String()
-		case *ast.UnaryExpr:
-			t += x.Op.String()
-		case *ast.AssignStmt:
-			t += x.Tok.String()
-		case *ast.IncDecStmt:
-			t += x.Tok.String()
-		case *ast.BranchStmt:
-			t += x.Tok.String()
-		case *ast.RangeStmt:
-			t += x.Tok.String() + c13Has(x.Key != nil) + c13Has(x.Value != nil)
-		case *ast.CallExpr:
-			t += c13Has(x.Ellipsis.IsValid())
-		case *ast.IfStmt:
-			t += c13Has(x.Init != nil) + c13Has(x.Else != nil)
-		case *ast.ForStmt:
-			t += c13Has(x.Init != nil) + c13Has(x.Cond != nil) + c13Has(x.Post != nil)
-		case *ast.SliceExpr:
-			t += c13Has(x.Low != nil) + c13Has(x.High != nil) + c13Has(x.Max != nil)
-		case *ast.CaseClause:
-			t += c13Has(x.List != nil)
-		case *ast.SwitchStmt:
-			t += c13Has(x.Init != nil) + c13Has(x.Tag != nil)
-		case *ast.GenDecl:
-			t += x.Tok.String()
-		case *ast.ChanType:
-			t += fmt.Sprint(x.Dir)
-		case *ast.FuncType:
-			t += c13Has(x.Results != nil)
-		case *ast.Field:
-			t += fmt.Sprint(len(x.Names))
-		case *ast.ValueSpec:
-			t += fmt.Sprint(len(x.Names)) + c13Has(x.Type != nil)
-		}
-		emit(t + "(")
-		stack = append(stack, frame{close: true, isStmt: isStmt})
-		return true
-	})
-}
-
-type c13Sibling struct {
-	name  string
-	pos   token.Pos
-	canon *c13Canon
-}
-
-func c13Canonical(m *c13Model, kind int, outer map[types.Object]int, extent ast.Node, parts ...ast.Node) *c13Canon {
-	c := &c13Canon{m: m, kind: kind, lo: extent.Pos(), hi: extent.End(), locals: map[types.Object]int{}, outer: outer}
-	for _, p := range parts {
-		if p != nil {
-			c.walk(p)
-		}
-	}
-	return c
-}
-
-// c13Diff returns the index of the first differing token, or -1.
-func c13Diff(a, b []c13Tok) int {
-	for i := 0; i < len(a) && i < len(b); i++ {
-		if a[i].s != b[i].s {
-			return i
-		}
-	}
-	if len(a) != len(b) {
-		if len(a) < len(b) {
-			return len(a)
-		}
-		return len(b)
-	}
-	return -1
-}
-
-func c13S1(r *core.R) {
-	m := c13Load(r)
-	if m == nil {
-		return
-	}
-	groups := []struct {
-		name string
-		sib  func(k int, outer map[types.Object]int) c13Sibling
-	}{
-		{"findPrevious", func(k int, outer map[types.Object]int) c13Sibling {
-			fd := m.find[k].Decl
-			return c13Sibling{m.find[k].Name(), fd.Pos(), c13Canonical(m, k, outer, fd, fd.Type, fd.Body)}
-		}},
-		{"update-loop", func(k int, outer map[types.Object]int) c13Sibling {
-			rs := m.updLoops[k]
-			return c13Sibling{"loop over " + src(m.fset, rs.X) + " in " + m.addUpdate.Name(), rs.Pos(), c13Canonical(m, k, outer, rs, rs)}
-		}},
-		{"create-loop", func(k int, outer map[types.Object]int) c13Sibling {
-			rs := m.createLoops[k]
-			return c13Sibling{"loop over " + src(m.fset, rs.X) + " in Change", rs.Pos(), c13Canonical(m, k, outer, rs, rs)}
-		}},
-	}
-	for _, g := range groups {
-		outer := map[types.Object]int{}
-		var sibs [3]c13Sibling
-		for k := range c13Kinds {
-			sibs[k] = g.sib(k, outer)
-			r.Stat("sibling_tokens", len(sibs[k].canon.toks))
-		}
-		// majority vote: the odd one out is the one reported
-		eq := func(i, j int) bool { return c13Diff(sibs[i].canon.toks, sibs[j].canon.toks) < 0 }
-		for k := range c13Kinds {
-			c := g.name + "/" + c13Kinds[k].Elem
-			o1, o2 := (k+1)%3, (k+2)%3
-			ref := -1
-			switch {
-			case eq(k, o1) && eq(k, o2):
-			case eq(o1, o2): // the two others agree, this one differs
-				ref = o1
-			case eq(k, o1) || eq(k, o2): // this one agrees with one other: the third is the odd one
-			default:
-				ref = o1
-			}
-			if ref < 0 {
-				if sibs[k].canon.nKindDep == 0 {
-					r.Bad(c, sibs[k].pos, "%s mentions no %s-specific type, field or history method: it cannot be the %s variant", sibs[k].name, c13Kinds[k].Elem, c13Kinds[k].Elem)
-					continue
-				}
-				r.OK(c, sibs[k].pos, "%s: %d canonical tokens (%d kind-dependent identifiers mapped to placeholders, %d locals) equal to its siblings'",
-					sibs[k].name, len(sibs[k].canon.toks), sibs[k].canon.nKindDep, len(sibs[k].canon.locals))
-				continue
-			}
-			a, b := sibs[k].canon.toks, sibs[ref].canon.toks
-			i := c13Diff(a, b)
-			ta, tb := c13Tok{"<end>", nil}, c13Tok{"<end>", nil}
-			if i < len(a) {
-				ta = a[i]
-			}
-			if i < len(b) {
-				tb = b[i]
-			}
-			pos := sibs[k].pos
-			sa, sb := "<end of body>", "<end of body>"
-			if ta.stmt != nil {
-				pos = ta.stmt.Pos()
-				sa = src(m.fset, ta.stmt)
-			}
-			if tb.stmt != nil {
-				sb = src(m.fset, tb.stmt) + " (" + r.P.Rel(tb.stmt.Pos()) + ")"
-			}
-			r.Bad(c, pos, "%s differs from its %s sibling after renaming %s->%s: first difference at `%s` [%s] versus `%s` [%s]; the %s variant therefore treats its elements differently from the other kinds",
-				sibs[k].name, c13Kinds[ref].Elem, c13Kinds[k].Elem, c13Kinds[ref].Elem, sa, ta.s, sb, tb.s, c13Kinds[k].Elem)
-		}
-	}
-}
-
-// ---------------------------------------------------------------------------------------------
-// S2 predecessor search
-
-// c13TypedErr recognises `&T{ID: <expr>}` with T an error struct type of package annotate; it returns the ID expression.
-func c13TypedErr(m *c13Model, e ast.Expr) (typ string, id ast.Expr, ok bool) {
-	ue, isU := ast.Unparen(e).(*ast.UnaryExpr)
-	if !isU || ue.Op != token.AND {
-		return "", nil, false
-	}
-	cl, isCL := ast.Unparen(ue.X).(*ast.CompositeLit)
-	if !isCL {
-		return "", nil, false
-	}
-	t := m.info.TypeOf(cl)
-	nt, isNamed := t.(*types.Named)
-	if !isNamed || nt.Obj().Pkg() != m.pk.Types {
-		return "", nil, false
-	}
-	errI := types.Universe.Lookup("error").Type().Underlying().(*types.Interface)
-	if !types.Implements(types.NewPointer(nt), errI) {
-		return "", nil, false
-	}
-	for _, el := range cl.Elts {
-		kv, isKV := el.(*ast.KeyValueExpr)
-		if !isKV {
-			continue
-		}
-		if f, _ := objOf(m.info, kv.Key).(*types.Var); f != nil && f.IsField() && f.Name() == "ID" && namedPath(f.Type()) == c13OsmPath+".FeatureID" {
-			id = kv.Value
-		}
-	}
-	return nt.Obj().Name(), id, id != nil
-}
-
-// c13IsFeatureIDOf reports whether e is `<obj>.FeatureID()`.
-func c13IsFeatureIDOf(info *types.Info, e ast.Expr, obj types.Object) bool {
-	call, ok := ast.Unparen(e).(*ast.CallExpr)
-	if !ok || len(call.Args) != 0 {
-		return false
-	}
-	sel, ok := ast.Unparen(call.Fun).(*ast.SelectorExpr)
-	if !ok || objOf(info, sel.X) != obj || obj == nil {
-		return false
-	}
-	fn := callee(info, call)
-	return fn != nil && fn.Name() == "FeatureID" && c13KindOfElem(fn.Type().(*types.Signature).Recv().Type()) >= 0
-}
-
-// c13FieldOfObj reports whether e is `<obj>.<name>` (a field).
-func c13FieldOfObj(info *types.Info, e ast.Expr, obj types.Object, name string) bool {
-	f := fieldOf(info, e)
-	if f == nil || f.Name() != name || obj == nil {
-		return false
-	}
-	return objOf(info, ast.Unparen(e).(*ast.SelectorExpr).X) == obj
-}
-
-func c13S2(r *core.R) {
-	m := c13Load(r)
-	if m == nil {
-		return
-	}
-	for k := range c13Kinds {
-		c13S2One(r, m, k)
-	}
-}
-
-func c13S2One(r *core.R, m *c13Model, k int) {
-	info := m.info
-	fi := m.find[k]
-	fn := fi.Name()
-	kn := c13Kinds[k]
-	body := fi.Decl.Body
-	g := newCFG(info, body)
-	dom := dominators(g)
-	r.Stat("functions", 1)
-	r.Stat("cfg_blocks", len(g.Blocks))
-
-	// parameters by role
-	sig := fi.Obj.Type().(*types.Signature)
-	var elem, ign *types.Var
-	nbool := 0
-	for i := 0; i < sig.Params().Len(); i++ {
-		p := sig.Params().At(i)
-		if c13KindOfElem(p.Type()) == k {
-			elem = p
-		}
-		if types.Identical(p.Type(), types.Typ[types.Bool]) {
-			ign = p
-			nbool++
-		}
-	}
-	if elem == nil || ign == nil || nbool != 1 {
-		r.Unknown("history@"+fn, fi.Decl.Pos(), "parameters not recognised: need one *osm.%s and exactly one bool (ignore-missing)", kn.Elem)
-		return
-	}
-
-	// --- history fetch -------------------------------------------------------------------
-	var hist, herr types.Object
-	var hcall *ast.CallExpr
-	var hstmt *ast.AssignStmt
-	nHist := 0
-	wrongKind := ""
-	inspectNoLit(body, func(n ast.Node) bool {
-		as, ok := n.(*ast.AssignStmt)
-		if !ok || len(as.Rhs) != 1 {
-			return true
-		}
-		call, ok := ast.Unparen(as.Rhs[0]).(*ast.CallExpr)
-		if !ok {
-			return true
-		}
-		cf := callee(info, call)
-		if cf == nil || cf.Type().(*types.Signature).Recv() == nil || namedPath(cf.Type().(*types.Signature).Recv().Type()) != c13OsmPath+".HistoryDatasourcer" {
-			return true
-		}
-		if !strings.HasSuffix(cf.Name(), "History") {
-			return true
-		}
-		nHist++
-		if cf.Name() != kn.Hist {
-			wrongKind = cf.Name()
-		}
-		if len(as.Lhs) == 2 {
-			hist, herr, hcall, hstmt = objOf(info, as.Lhs[0]), objOf(info, as.Lhs[1]), call, as
-		}
-		return true
-	})
-	c := "history@" + fn
-	switch {
-	case nHist != 1 || hcall == nil:
-		r.Unknown(c, fi.Decl.Pos(), "expected exactly one `hist, err := ds.%s(ctx, elem.ID)` call, found %d history call(s)", kn.Hist, nHist)
-		return
-	case wrongKind != "":
-		r.Bad(c, hcall.Pos(), "the predecessor of a %s is looked up with %s: `%s`; the old state would come from another element kind's history", kn.Elem, wrongKind, src(m.fset, hcall))
-		return
-	case hist == nil || herr == nil:
-		r.Bad(c, hcall.Pos(), "the history or its error is discarded: `%s`", src(m.fset, hstmt))
-		return
-	case len(hcall.Args) != 2 || !c13FieldOfObj(info, hcall.Args[1], elem, "ID"):
-		r.Bad(c, hcall.Pos(), "the history is not requested for the element's own id: `%s`", src(m.fset, hcall))
-		return
-	}
-	// the loop over the history
-	var loop *ast.RangeStmt
-	inspectNoLit(body, func(n ast.Node) bool {
-		if rs, ok := n.(*ast.RangeStmt); ok && objOf(info, rs.X) == hist {
-			loop = rs
-		}
-		return true
-	})
-	if loop == nil {
-		r.Unknown("select@"+fn, fi.Decl.Pos(), "no range loop over the history %s; accepted idiom: index + running-maximum scan", hist.Name())
-		return
-	}
-	head, done := c13LoopBlocks(g, loop)
-	if head == nil || done == nil {
-		r.Unknown("select@"+fn, loop.Pos(), "history loop not found in the control-flow graph")
-		return
-	}
-	// error of the history call: tested != nil before the loop, returned unchanged
-	{
-		okErr, why := false, "no `if err != nil { return nil, err }` between the history call and the search loop"
-		hb, _ := blockOf(g, hcall.Pos())
-		for _, b := range g.Blocks {
-			e := c13CondOf(b)
-			if e == nil || !dom[head][b] || hb == nil || !(b == hb || dom[b][hb]) {
-				continue
-			}
-			for _, a := range c13Split(e, true, b) {
-				obj, isNil, ok := c13NilTest(info, a)
-				if !ok || obj != herr || isNil {
-					continue
-				}
-				ret := c13ReturnOf(b.Succs[0])
-				if ret == nil || len(ret.Results) != 2 {
-					why = "the non-nil history error does not lead to a return"
-					continue
-				}
-				if objOf(info, ret.Results[1]) != herr {
-					why = "the history error is replaced by `" + src(m.fset, ret.Results[1]) + "`: checkErr can no longer classify it with ds.NotFound"
-					continue
-				}
-				if !c13IsNil(info, ret.Results[0]) {
-					why = "a non-nil element is returned together with the history error"
-					continue
-				}
-				okErr = true
-			}
-		}
-		if len(c13AssignsTo(info, body, herr)) != 1 || len(c13AssignsTo(info, body, hist)) != 1 {
-			okErr, why = false, "the history or its error variable is reassigned"
-		}
-		if len(c13AssignsTo(info, body, elem)) != 0 {
-			okErr, why = false, "the element parameter "+elem.Name()+" is reassigned: later uses no longer denote the change element"
-		}
-		if okErr {
-			r.OK(c, hcall.Pos(), "`%s` fetches the history of the element's own id with the %s method; a non-nil error is returned unchanged before the search", src(m.fset, hstmt), kn.Elem)
-		} else {
-			r.Bad(c, hcall.Pos(), "%s", why)
-		}
-	}
-
-	// --- selection ---------------------------------------------------------------------------
-	c = "select@" + fn
-	var cand, idx types.Object
-	if loop.Key != nil {
-		idx = objOf(info, loop.Key)
-	}
-	if loop.Value != nil {
-		cand = objOf(info, loop.Value)
-	}
-	if idx == nil {
-		r.Unknown(c, loop.Pos(), "the history loop has no index variable; accepted idiom records the index of the best candidate")
-		return
-	}
-	// candVersion: cand.Version, hist[idx].Version or a local defined once from it
-	var isCandVersion func(e ast.Expr, depth int) bool
-	isCandVersion = func(e ast.Expr, depth int) bool {
-		e = ast.Unparen(e)
-		if f := fieldOf(info, e); f != nil && f.Name() == "Version" {
-			x := ast.Unparen(e.(*ast.SelectorExpr).X)
-			if cand != nil && objOf(info, x) == cand {
-				return true
-			}
-			if ix, ok := x.(*ast.IndexExpr); ok && objOf(info, ix.X) == hist && objOf(info, ix.Index) == idx {
-				return true
-			}
-			return false
-		}
-		if v := objOf(info, e); v != nil && depth == 0 && c13Within(c13Decl(v), loop.Body) {
-			as := c13AssignsTo(info, body, v)
-			return len(as) == 1 && as[0].rhs != nil && isCandVersion(as[0].rhs, 1)
-		}
-		return false
-	}
-	isOwnVersion := func(e ast.Expr) bool { return c13FieldOfObj(info, e, elem, "Version") }
-	// max := the variable assigned the candidate's version inside the loop; loc := the variable assigned the index
-	var maxV, locV types.Object
-	var maxAs, locAs *ast.AssignStmt
-	nMaxAs, nLocAs := 0, 0
-	ast.Inspect(loop.Body, func(n ast.Node) bool {
-		as, ok := n.(*ast.AssignStmt)
-		if !ok || as.Tok != token.ASSIGN || len(as.Lhs) != len(as.Rhs) {
-			return true
-		}
-		for i := range as.Lhs {
-			l := objOf(info, as.Lhs[i])
-			if l == nil || c13Within(c13Decl(l), loop) {
-				continue
-			}
-			if isCandVersion(as.Rhs[i], 0) {
-				maxV, maxAs = l, as
-				nMaxAs++
-			} else if objOf(info, as.Rhs[i]) == idx {
-				locV, locAs = l, as
-				nLocAs++
-			}
-		}
-		return true
-	})
-	if maxV == nil || locV == nil || nMaxAs != 1 || nLocAs != 1 {
-		r.Unknown(c, loop.Pos(), "search idiom not recognised: need exactly one `max = cand.Version` and one `loc = i` inside the loop over %s (found %d and %d)", hist.Name(), nMaxAs, nLocAs)
-		return
-	}
-	bMax, _ := blockOf(g, maxAs.Pos())
-	bLoc, _ := blockOf(g, locAs.Pos())
-	region := reachableFrom([]*cfg.Block{head.Succs[0]}, func(b *cfg.Block) bool { return b == head })
-	bad := ""
-	switch {
-	case bMax == nil || bLoc == nil || !region[bMax]:
-		r.Unknown(c, maxAs.Pos(), "the assignments to %s/%s were not found in the loop's control-flow graph", maxV.Name(), locV.Name())
-		return
-	case bMax != bLoc:
-		bad = fmt.Sprintf("`%s` and `%s` are in different branches: the recorded index is not the index of the running maximum", src(m.fset, maxAs), src(m.fset, locAs))
-	}
-	// every branch inside the loop must be a guard of the selection block; nothing may leave the loop
-	guards := c13GuardsAt(g, dom, bMax)
-	isGuardBlk := map[*cfg.Block]bool{}
-	var inLoop []c13Atom
-	for _, a := range guards {
-		if region[a.blk] && a.blk != head {
-			isGuardBlk[a.blk] = true
-			inLoop = append(inLoop, a)
-		}
-	}
-	for b := range region {
-		if b == head || bad != "" {
-			continue
-		}
-		if e := c13CondOf(b); e != nil && !isGuardBlk[b] {
-			bad = fmt.Sprintf("the branch `%s` inside the search loop is not part of the selection condition: some history entries are treated differently", src(m.fset, e))
-		}
-		for _, s := range b.Succs {
-			if !region[s] {
-				bad = "the search loop is left early (break/goto): with an unsorted history a later entry with a greater version below the element's own is never seen"
-			}
-		}
-		if len(b.Succs) == 0 {
-			bad = "the search loop returns early: with an unsorted history a later entry with a greater version below the element's own is never seen"
-		}
-	}
-	var sawOwn, sawMax bool
-	for _, a := range inLoop {
-		if bad != "" {
-			break
-		}
-		x, y, op, ok := c13Cmp(a)
-		if !ok {
-			bad = fmt.Sprintf("selection conjunct `%s` is not a version comparison", src(m.fset, a.e))
-			break
-		}
-		// orient as candVersion op other
-		if !isCandVersion(x, 0) {
-			x, y, op = y, x, c13Flip(op)
-		}
-		if !isCandVersion(x, 0) {
-			bad = fmt.Sprintf("selection conjunct `%s` does not compare the candidate's Version", src(m.fset, a.e))
-			break
-		}
-		switch {
-		case isOwnVersion(y):
-			sawOwn = true
-			if op == token.LEQ {
-				bad = fmt.Sprintf("`%s` admits a history entry with the element's own version: the element would be paired with itself as old state instead of the greatest version below", src(m.fset, a.e))
-			} else if op != token.LSS {
-				bad = fmt.Sprintf("`%s` (holding as `cand %s own`) does not select versions strictly below the element's own", src(m.fset, a.e), op)
-			}
-		case objOf(info, y) == maxV:
-			sawMax = true
-			if op == token.GEQ {
-				bad = fmt.Sprintf("`%s` is not strict: of two history entries with the same version the later replaces the earlier", src(m.fset, a.e))
-			} else if op != token.GTR {
-				bad = fmt.Sprintf("`%s` (holding as `cand %s max`) does not keep the greatest version: the running maximum %s is only replaced by smaller versions", src(m.fset, a.e), op, maxV.Name())
-			}
-		default:
-			bad = fmt.Sprintf("selection conjunct `%s` compares the candidate's Version with neither the element's own Version nor the running maximum", src(m.fset, a.e))
-		}
-	}
-	if bad == "" && !sawOwn {
-		bad = "the selection does not require the candidate's Version to be below the element's own Version: later versions present in the history are chosen"
-	}
-	if bad == "" && !sawMax {
-		bad = "the selection does not compare against the running maximum: the last version below is chosen instead of the greatest (histories may be unsorted)"
-	}
-	if bad != "" {
-		r.Bad(c, maxAs.Pos(), "%s", bad)
-	} else {
-		var gs []string
-		for _, a := range inLoop {
-			gs = append(gs, src(m.fset, a.e))
-		}
-		r.OK(c, maxAs.Pos(), "`%s; %s` execute in one block guarded exactly by {%s} (strict < own version, strict > running maximum); the loop body has no other branch and no exit", src(m.fset, maxAs), src(m.fset, locAs), strings.Join(gs, " && "))
-	}
-
-	// --- initial values ------------------------------------------------------------------------
-	c = "init@" + fn
-	initOf := func(v types.Object, inLoopStmt ast.Node) (int64, token.Pos, string) {
-		var val int64
-		var pos token.Pos
-		n := 0
-		for _, a := range c13AssignsTo(info, body, v) {
-			if a.stmt == inLoopStmt {
-				continue
-			}
-			n++
-			pos = a.stmt.Pos()
-			if c13Within(a.stmt, loop) {
-				return 0, pos, fmt.Sprintf("%s is written a second time inside the loop: `%s`", v.Name(), src(m.fset, a.stmt))
-			}
-			if a.rhs == nil {
-				if vs, ok := a.stmt.(*ast.ValueSpec); ok && len(vs.Values) == 0 {
-					val = 0
-					continue
-				}
-				return 0, pos, fmt.Sprintf("%s is written by `%s`, not by a constant initialisation", v.Name(), src(m.fset, a.stmt))
-			}
-			cv, ok := constInt(info, a.rhs)
-			if !ok {
-				return 0, pos, fmt.Sprintf("%s is initialised from the non-constant `%s`", v.Name(), src(m.fset, a.rhs))
-			}
-			val = cv
-			if !posDominates(g, dom, a.stmt.Pos(), maxAs.Pos()) {
-				return 0, pos, fmt.Sprintf("the initialisation of %s does not dominate the search loop", v.Name())
-			}
-		}
-		if n != 1 {
-			return 0, pos, fmt.Sprintf("%s has %d writes outside the selection branch; expected exactly one constant initialisation", v.Name(), n)
-		}
-		return val, pos, ""
-	}
-	maxInit, maxPos, why1 := initOf(maxV, maxAs)
-	locInit, _, why2 := initOf(locV, locAs)
-	switch {
-	case why1 != "":
-		r.Bad(c, maxPos, "%s", why1)
-	case why2 != "":
-		r.Bad(c, maxPos, "%s", why2)
-	case maxInit > 0:
-		r.Bad(c, maxPos, "the running maximum %s starts at %d: a history entry with version %d (a valid version >= 1) is never `> %s` and cannot be selected, e.g. version 1 as predecessor of version 2", maxV.Name(), maxInit, maxInit, maxV.Name())
-	case locInit >= 0:
-		r.Bad(c, maxPos, "the not-found sentinel of %s is %d, which is a valid index into the history", locV.Name(), locInit)
-	default:
-		r.OK(c, maxPos, "running maximum %s starts at the constant %d (< 1, below every valid version); %s starts at the sentinel %d (not an index); each is written only there and in the selection branch", maxV.Name(), maxInit, locV.Name(), locInit)
-	}
-	if why1 != "" || why2 != "" {
-		return
-	}
-
-	// --- after the loop --------------------------------------------------------------------------
-	c = "notfound@" + fn
-	type retInfo struct {
-		ret                *ast.ReturnStmt
-		nf, ig             int // +1 true, -1 false, 0 unknown
-		class              string
-		typedName, problem string
-	}
-	var rets []retInfo
-	for _, b := range g.Blocks {
-		if !b.Live || !(b == done || dom[b][done]) {
-			continue
-		}
-		ret := c13ReturnOf(b)
-		if ret == nil {
-			continue
-		}
-		ri := retInfo{ret: ret}
-		for _, a := range c13GuardsAt(g, dom, b) {
-			if !(a.blk == done || dom[a.blk][done]) {
-				continue
-			}
-			if o := objOf(info, a.e); o == ign {
-				ri.ig = map[bool]int{true: 1, false: -1}[a.val]
-				continue
-			}
-			x, y, op, ok := c13Cmp(a)
-			if !ok {
-				ri.problem = "unrecognised guard `" + src(m.fset, a.e) + "`"
-				continue
-			}
-			if objOf(info, x) != locV {
-				x, y, op = y, x, c13Flip(op)
-			}
-			cv, isC := constInt(info, y)
-			if objOf(info, x) != locV || !isC {
-				ri.problem = "unrecognised guard `" + src(m.fset, a.e) + "`"
-				continue
-			}
-			// loc ranges over {locInit} ∪ [0, len): decide whether the guard means found or not found
-			switch {
-			case (op == token.EQL && cv == locInit) || (op == token.LSS && cv > locInit && cv <= 0) || (op == token.LEQ && cv >= locInit && cv < 0):
-				ri.nf = 1
-			case (op == token.NEQ && cv == locInit) || (op == token.GEQ && cv > locInit && cv <= 0) || (op == token.GTR && cv >= locInit && cv < 0):
-				ri.nf = -1
-			default:
-				ri.problem = fmt.Sprintf("the test `%s` does not separate the sentinel %d from valid indices", src(m.fset, a.e), locInit)
-			}
-		}
-		if len(ret.Results) != 2 {
-			ri.problem = "return without two results"
-		} else {
-			r0, r1 := ret.Results[0], ret.Results[1]
-			switch {
-			case c13IsNil(info, r0) && c13IsNil(info, r1):
-				ri.class = "nilnil"
-			case c13IsNil(info, r0):
-				tn, id, ok := c13TypedErr(m, r1)
-				if !ok {
-					ri.problem = "the error `" + src(m.fset, r1) + "` is not a typed annotate error carrying an ID"
-				} else if !c13IsFeatureIDOf(info, id, elem) {
-					ri.problem = "the typed error's ID `" + src(m.fset, id) + "` is not the element's FeatureID()"
-				}
-				ri.class, ri.typedName = "typed", tn
-			case c13IsNil(info, r1):
-				ix, ok := ast.Unparen(r0).(*ast.IndexExpr)
-				if !ok || objOf(info, ix.X) != hist || objOf(info, ix.Index) != locV {
-					ri.problem = "the returned element `" + src(m.fset, r0) + "` is not " + hist.Name() + "[" + locV.Name() + "]"
-				}
-				ri.class = "found"
-			default:
-				ri.problem = "unrecognised return"
-			}
-		}
-		rets = append(rets, ri)
-	}
-	seen := map[string]bool{}
-	bad = ""
-	var typed string
-	var at token.Pos = done.Stmt.End()
-	for _, ri := range rets {
-		seen[ri.class] = true
-		p := ""
-		switch {
-		case ri.problem != "":
-			p = ri.problem
-		case ri.class == "nilnil" && (ri.nf != 1 || ri.ig != 1):
-			p = "`return nil, nil` (which the caller turns into a create action) is reached without both `no earlier version` and ignoreMissing holding: a missing earlier version is silently reported as a create instead of the typed error"
-		case ri.class == "typed" && (ri.nf != 1 || ri.ig != -1):
-			p = "the typed error is returned although an earlier version was found or missing versions are to be ignored"
-		case ri.class == "found" && ri.nf != -1:
-			p = "`" + src(m.fset, ri.ret) + "` is reachable with " + locV.Name() + " still at the sentinel"
-		}
-		if ri.class == "typed" {
-			typed = ri.typedName
-		}
-		if p != "" && bad == "" {
-			bad, at = p, ri.ret.Pos()
-		}
-	}
-	for _, cl := range []string{"nilnil", "typed", "found"} {
-		if bad == "" && !seen[cl] {
-			bad = map[string]string{
-				"nilnil": "no `return nil, nil` under ignoreMissing: a missing earlier version cannot turn the action into a create",
-				"typed":  "a missing earlier version never yields the typed error, with or without ignoreMissing",
-				"found":  "the selected history entry is never returned",
-			}[cl]
-		}
-	}
-	if len(rets) == 0 {
-		r.Unknown(c, at, "no return after the search loop")
-	} else if bad != "" {
-		r.Bad(c, at, "%s", bad)
-	} else {
-		r.OK(c, at, "%d returns after the loop: %s[%s] only when %s left the sentinel; otherwise (nil, nil) exactly under ignoreMissing and &%s{ID: elem.FeatureID()} exactly without it", len(rets), hist.Name(), locV.Name(), locV.Name(), typed)
-	}
-}
-
-// c13Decl returns a zero-width node at the declaration position of an object (for extent tests).
-func c13Decl(o types.Object) ast.Node { return &ast.Ident{NamePos: o.Pos(), Name: o.Name()} }
-
-// ---------------------------------------------------------------------------------------------
-// S3 order and pairing
-
-// c13AppendTo recognises `acc = append(acc, x...)` on the accumulator and returns the number of appended
-// actions (-1 when the statement writes acc in another way).
-func c13AppendTo(info *types.Info, n ast.Node, acc types.Object) (count int, touches bool, lit []ast.Expr) {
-	as, ok := n.(*ast.AssignStmt)
-	if !ok {
-		return 0, false, nil
-	}
-	for i, l := range as.Lhs {
-		if objOf(info, l) != acc {
-			continue
-		}
-		if len(as.Lhs) != len(as.Rhs) || as.Tok != token.ASSIGN {
-			return -1, true, nil
-		}
-		call, ok := ast.Unparen(as.Rhs[i]).(*ast.CallExpr)
-		if !ok || builtinName(info, call) != "append" || call.Ellipsis.IsValid() || len(call.Args) < 1 || objOf(info, call.Args[0]) != acc {
-			return -1, true, nil
-		}
-		return len(call.Args) - 1, true, call.Args[1:]
-	}
-	return 0, false, nil
-}
-
-// c13CountPaths computes the minimum and maximum number of appended actions over all paths through the
-// body of loop rs that come back to the loop head; error returns are excluded, other exits are reported.
-func c13CountPaths(m *c13Model, g *cfg.CFG, rs *ast.RangeStmt, acc types.Object) (min, max int, problem string, npaths int) {
-	info := m.info
-	head, _ := c13LoopBlocks(g, rs)
-	if head == nil {
-		return 0, 0, "loop not found in the control-flow graph", 0
-	}
-	type res struct {
-		min, max, paths int
-		none            bool // no non-error path to the head
-	}
-	memo := map[*cfg.Block]*res{}
-	onStack := map[*cfg.Block]bool{}
-	var visit func(b *cfg.Block) *res
-	visit = func(b *cfg.Block) *res {
-		if b == head {
-			return &res{paths: 1}
-		}
-		if r, ok := memo[b]; ok {
-			return r
-		}
-		if onStack[b] {
-			problem = "the loop body contains an inner cycle; accepted idiom is a loop-free body"
-			return &res{none: true}
-		}
-		onStack[b] = true
-		defer func() { onStack[b] = false }()
-		cnt := 0
-		for _, n := range b.Nodes {
-			k, touches, _ := c13AppendTo(info, n, acc)
-			if touches && k < 0 {
-				problem = fmt.Sprintf("`%s` writes the action list other than by appending to it", src(m.fset, n))
-			}
-			if k > 0 {
-				cnt += k
-			}
-		}
-		out := &res{none: true}
-		if ret := c13ReturnOf(b); ret != nil {
-			if len(ret.Results) == 0 || c13IsNil(info, ret.Results[len(ret.Results)-1]) {
-				problem = fmt.Sprintf("`%s` leaves the loop without an error: the remaining elements get no action", src(m.fset, ret))
-			}
-			memo[b] = out
-			return out
-		}
-		if len(b.Succs) == 0 {
-			memo[b] = out
-			return out
-		}
-		for _, s := range b.Succs {
-			if s.Kind == cfg.KindRangeDone && s.Stmt == rs {
-				problem = "a `break` leaves the loop: the remaining elements get no action"
-				continue
-			}
-			sr := visit(s)
-			if sr.none {
-				continue
-			}
-			if out.none {
-				out = &res{min: sr.min, max: sr.max, paths: sr.paths}
-			} else {
-				if sr.min < out.min {
-					out.min = sr.min
-				}
-				if sr.max > out.max {
-					out.max = sr.max
-				}
-				out.paths += sr.paths
-			}
-		}
-		if !out.none {
-			out.min += cnt
-			out.max += cnt
-		}
-		memo[b] = out
-		return out
-	}
-	rr := visit(head.Succs[0])
-	if rr.none && problem == "" {
-		problem = "no path through the loop body returns to the loop head"
-	}
-	return rr.min, rr.max, problem, rr.paths
-}
-
-// c13CallAssign finds the assignment statement whose single RHS is call.
-func c13CallAssign(body ast.Node, call *ast.CallExpr) *ast.AssignStmt {
-	var out *ast.AssignStmt
-	ast.Inspect(body, func(n ast.Node) bool {
-		if as, ok := n.(*ast.AssignStmt); ok && len(as.Rhs) == 1 && ast.Unparen(as.Rhs[0]) == ast.Expr(call) {
-			out = as
-		}
-		return true
-	})
-	return out
-}
-
-// c13ErrReturned reports whether the error variable assigned by the statement `as` is tested `!= nil`
-// in a block dominated by it, with the true edge returning that variable as last result.
-func c13ErrReturned(info *types.Info, g *cfg.CFG, dom map[*cfg.Block]map[*cfg.Block]bool, as *ast.AssignStmt, errObj types.Object) bool {
-	ab, _ := blockOf(g, as.Pos())
-	if ab == nil || errObj == nil {
-		return false
-	}
-	for _, b := range g.Blocks {
-		e := c13CondOf(b)
-		if e == nil || !(b == ab || dom[b][ab]) {
-			continue
-		}
-		atoms := c13Split(e, true, b)
-		if len(atoms) != 1 {
-			continue
-		}
-		obj, isNil, ok := c13NilTest(info, atoms[0])
-		if !ok || obj != errObj || isNil {
-			continue
-		}
-		// nearest such test only: no other write to the error between is checked by the caller
-		if ret := c13ReturnOf(b.Succs[0]); ret != nil && len(ret.Results) > 0 && objOf(info, ret.Results[len(ret.Results)-1]) == errObj {
+// feasiblePath reports whether the conditions of p admit at least one abstract input.
+func (m *c13Model) feasiblePath(p *c13UPath) bool {
+	m.interpret(p)
+	for _, c := range m.domOf(p.el).combos() {
+		if c13Covers(p.allowed, c) {
 			return true
 		}
 	}
 	return false
-}
-
-func c13ArgFor(fn *types.Func, call *ast.CallExpr, p *types.Var) ast.Expr {
-	sig := fn.Type().(*types.Signature)
-	for i := 0; i < sig.Params().Len() && i < len(call.Args); i++ {
-		if sig.Params().At(i) == p {
-			return call.Args[i]
-		}
-	}
-	return nil
-}
-
-func c13S3(r *core.R) {
-	m := c13Load(r)
-	if m == nil {
-		return
-	}
-	info := m.info
-	g, dom := m.gChange, m.domChange
-	body := m.change.Decl.Body
-	au := m.addUpdate.Obj
-
-	// ---- Change: accumulator threading and order ------------------------------------------------
-	modAs, delAs := c13CallAssign(body, m.modCall), c13CallAssign(body, m.delCall)
-	accArgM, accArgD := c13ArgFor(au, m.modCall, m.accParam), c13ArgFor(au, m.delCall, m.accParam)
-	acc0 := objOf(info, accArgM)
-	c := "order@Change create-before-modify"
-	if modAs == nil || delAs == nil || len(modAs.Lhs) != 2 || len(delAs.Lhs) != 2 || acc0 == nil {
-		r.Unknown(c, m.modCall.Pos(), "the calls of %s are not of the form `acc, err = %s(..., acc, section, type, ...)`", au.Name(), au.Name())
-		return
-	}
-	mb, _ := blockOf(g, m.modCall.Pos())
-	db, _ := blockOf(g, m.delCall.Pos())
-	bad := ""
-	for k := range c13Kinds {
-		rs := m.createLoops[k]
-		head, _ := c13LoopBlocks(g, rs)
-		if head == nil || mb == nil {
-			bad = "create loop or modify call not found in the control-flow graph"
-			break
-		}
-		// the loop ranges over the Create section
-		root := rootObj(info, rs.X)
-		okSrc := false
-		if f := fieldOf(info, rs.X); f == m.osmFields[k] {
-			x := ast.Unparen(rs.X).(*ast.SelectorExpr).X
-			if fieldOf(info, x) == m.chgCreate {
-				okSrc = true
-			} else if root != nil {
-				as := c13AssignsTo(info, body, root)
-				okSrc = len(as) == 1 && as[0].rhs != nil && fieldOf(info, as[0].rhs) == m.chgCreate && objOf(info, x) == root
-			}
-		}
-		if !okSrc {
-			bad = fmt.Sprintf("the loop over `%s` does not range over change.Create.%s", src(m.fset, rs.X), c13Kinds[k].Elems)
-			break
-		}
-		if reachableFrom([]*cfg.Block{mb}, nil)[head] {
-			bad = fmt.Sprintf("the create loop over `%s` is reachable after the call handling change.Modify: create actions would follow modify actions", src(m.fset, rs.X))
-			break
-		}
-		if !reachableFrom([]*cfg.Block{head}, nil)[mb] {
-			bad = fmt.Sprintf("after the create loop over `%s` the call handling change.Modify is not reached", src(m.fset, rs.X))
-			break
-		}
-		// the loop appends to the slice handed to the modify call
-		n := 0
-		ast.Inspect(rs.Body, func(x ast.Node) bool {
-			if k, touches, _ := c13AppendTo(info, x, acc0); touches && k > 0 {
-				n++
-			}
-			return true
-		})
-		if n == 0 {
-			bad = fmt.Sprintf("the create loop over `%s` does not append to %s, the list handed to the modify call", src(m.fset, rs.X), acc0.Name())
-			break
-		}
-	}
-	if bad != "" {
-		r.Bad(c, m.modCall.Pos(), "%s", bad)
-	} else {
-		r.OK(c, m.modCall.Pos(), "the three loops over change.Create append to %s, reach `%s` and are not reachable after it", acc0.Name(), src(m.fset, m.modCall))
-	}
-
-	c = "order@Change modify-before-delete"
-	bad = ""
-	typM, typD := c13ArgFor(au, m.modCall, m.typParam), c13ArgFor(au, m.delCall, m.typParam)
-	secM, secD := c13ArgFor(au, m.modCall, m.secParam), c13ArgFor(au, m.delCall, m.secParam)
-	ignM, ignD := c13ArgFor(au, m.modCall, m.ignPar), c13ArgFor(au, m.delCall, m.ignPar)
-	_, _ = ignM, ignD
-	acc1, err1 := objOf(info, modAs.Lhs[0]), objOf(info, modAs.Lhs[1])
-	acc2, err2 := objOf(info, delAs.Lhs[0]), objOf(info, delAs.Lhs[1])
-	var okRet *ast.ReturnStmt
-	switch {
-	case fieldOf(info, secM) != m.chgModify || c13ObjQ(info, typM) != m.actModify:
-		bad = fmt.Sprintf("`%s` does not pair change.Modify with osm.ActionModify: modified elements get action type `%s`", src(m.fset, m.modCall), src(m.fset, typM))
-	case fieldOf(info, secD) != m.chgDelete || c13ObjQ(info, typD) != m.actDelete:
-		bad = fmt.Sprintf("`%s` does not pair change.Delete with osm.ActionDelete: deleted elements get action type `%s` (and visibility of that type)", src(m.fset, m.delCall), src(m.fset, typD))
-	case mb == nil || db == nil || !posDominates(g, dom, m.modCall.Pos(), m.delCall.Pos()) || mb == db && m.modCall.Pos() > m.delCall.Pos():
-		bad = "the call handling change.Modify does not precede the call handling change.Delete on every path: delete actions would come before modify actions"
-	case acc1 == nil || objOf(info, accArgD) != acc1:
-		bad = fmt.Sprintf("the delete call is handed `%s`, not the list returned by the modify call: the create/modify actions are lost", src(m.fset, accArgD))
-	case acc2 == nil:
-		bad = "the result of the delete call is discarded"
-	case !c13ErrReturned(info, g, dom, modAs, err1) || !c13ErrReturned(info, g, dom, delAs, err2):
-		bad = "the error of a modify/delete call is not returned: a missing history would go unreported"
-	}
-	if bad == "" {
-		// success return: &osm.Diff{Actions: acc2}, nil dominated by the delete call
-		inspectNoLit(body, func(n ast.Node) bool {
-			ret, ok := n.(*ast.ReturnStmt)
-			if !ok || len(ret.Results) != 2 || !c13IsNil(info, ret.Results[1]) {
-				return true
-			}
-			okRet = ret
-			return true
-		})
-		switch {
-		case okRet == nil:
-			bad = "no success return found in Change"
-		case !posDominates(g, dom, m.delCall.Pos(), okRet.Pos()):
-			bad = "the success return is not dominated by the delete call"
-		default:
-			found := false
-			ast.Inspect(okRet.Results[0], func(n ast.Node) bool {
-				if kv, ok := n.(*ast.KeyValueExpr); ok && objOf(info, kv.Key) == types.Object(m.diffActions) && objOf(info, kv.Value) == acc2 {
-					found = true
-				}
-				return true
-			})
-			if !found {
-				bad = fmt.Sprintf("`%s` does not return the list produced by the delete call as Diff.Actions", src(m.fset, okRet))
-			}
-		}
-	}
-	if bad != "" {
-		r.Bad(c, m.delCall.Pos(), "%s", bad)
-	} else {
-		r.OK(c, m.delCall.Pos(), "`%s(.., change.Modify, ActionModify ..)` dominates `%s(.., change.Delete, ActionDelete ..)`; the list is threaded %s -> %s -> %s -> Diff.Actions and both errors are returned", au.Name(), au.Name(), acc0.Name(), acc1.Name(), acc2.Name())
-	}
-
-	// ---- addUpdate: threading --------------------------------------------------------------------
-	c = "threading@" + m.addUpdate.Name()
-	bad = ""
-	nret := 0
-	inspectNoLit(m.addUpdate.Decl.Body, func(n ast.Node) bool {
-		ret, ok := n.(*ast.ReturnStmt)
-		if !ok || len(ret.Results) != 2 || !c13IsNil(info, ret.Results[1]) {
-			return true
-		}
-		nret++
-		if objOf(info, ret.Results[0]) != types.Object(m.accParam) && bad == "" {
-			bad = fmt.Sprintf("`%s` returns without error but not the accumulated list %s: actions appended so far (creates, modifies) are dropped", src(m.fset, ret), m.accParam.Name())
-		}
-		return true
-	})
-	for _, a := range c13AssignsTo(info, m.addUpdate.Decl.Body, m.accParam) {
-		if k, touches, _ := c13AppendTo(info, a.stmt, m.accParam); bad == "" && (!touches || k < 0) {
-			bad = fmt.Sprintf("`%s` writes the action list other than by appending", src(m.fset, a.stmt))
-		}
-	}
-	if nret == 0 {
-		r.Unknown(c, m.addUpdate.Decl.Pos(), "no success return found")
-	} else if bad != "" {
-		r.Bad(c, m.addUpdate.Decl.Pos(), "%s", bad)
-	} else {
-		r.OK(c, m.addUpdate.Decl.Pos(), "all %d non-error returns return the parameter %s, which is only ever appended to", nret, m.accParam.Name())
-	}
-
-	// ---- kind order ------------------------------------------------------------------------------
-	for _, fo := range []struct {
-		fi    *FuncInfo
-		g     *cfg.CFG
-		dom   map[*cfg.Block]map[*cfg.Block]bool
-		loops [3]*ast.RangeStmt
-	}{{m.change, m.gChange, m.domChange, m.createLoops}, {m.addUpdate, m.gAdd, m.domAdd, m.updLoops}} {
-		c := "kind-order@" + fo.fi.Name()
-		bad := ""
-		for k := 0; k < 2 && bad == ""; k++ {
-			_, doneA := c13LoopBlocks(fo.g, fo.loops[k])
-			headB, _ := c13LoopBlocks(fo.g, fo.loops[k+1])
-			headA, _ := c13LoopBlocks(fo.g, fo.loops[k])
-			if doneA == nil || headB == nil || headA == nil {
-				bad = "loop not found in the control-flow graph"
-			} else if !(fo.dom[headB][doneA]) || reachableFrom([]*cfg.Block{headB}, nil)[headA] {
-				bad = fmt.Sprintf("the loop over %s does not complete before the loop over %s starts: actions are not in node, way, relation order", c13Kinds[k].Elems, c13Kinds[k+1].Elems)
-			}
-		}
-		// section: the update loops range over fields of the section parameter
-		if fo.fi == m.addUpdate {
-			for k := range c13Kinds {
-				x := fo.loops[k].X
-				if fieldOf(info, x) != m.osmFields[k] || objOf(info, ast.Unparen(x).(*ast.SelectorExpr).X) != types.Object(m.secParam) {
-					bad = fmt.Sprintf("the loop over `%s` does not range over the %s of the section parameter %s", src(m.fset, x), c13Kinds[k].Elems, m.secParam.Name())
-				}
-			}
-		}
-		if bad != "" {
-			r.Bad(c, fo.loops[0].Pos(), "%s", bad)
-		} else {
-			r.OK(c, fo.loops[0].Pos(), "completion of the Nodes loop dominates the Ways loop, whose completion dominates the Relations loop; no way back")
-		}
-	}
-
-	// ---- exactly one action per element -------------------------------------------------------------
-	for _, lo := range []struct {
-		fi    *FuncInfo
-		g     *cfg.CFG
-		loops [3]*ast.RangeStmt
-		acc   types.Object
-	}{{m.change, m.gChange, m.createLoops, acc0}, {m.addUpdate, m.gAdd, m.updLoops, m.accParam}} {
-		for k := range c13Kinds {
-			c := "one-action@" + lo.fi.Name() + "/" + c13Kinds[k].Elem
-			rs := lo.loops[k]
-			min, max, problem, paths := c13CountPaths(m, lo.g, rs, lo.acc)
-			r.Stat("loop_paths", paths)
-			switch {
-			case problem != "":
-				r.Bad(c, rs.Pos(), "%s", problem)
-			case min == 0:
-				r.Bad(c, rs.Pos(), "a non-error path through the body of the loop over `%s` appends no action to %s: that element is missing from the diff", src(m.fset, rs.X), lo.acc.Name())
-			case max > 1:
-				r.Bad(c, rs.Pos(), "a path through the body of the loop over `%s` appends %d actions for one element", src(m.fset, rs.X), max)
-			default:
-				r.OK(c, rs.Pos(), "each of the %d non-error path(s) from the loop head back to it appends exactly one action to %s; no break or non-error return", paths, lo.acc.Name())
-			}
-		}
-	}
-}
-
-// ---------------------------------------------------------------------------------------------
-// S4 visibility and Old/New roles
-
-type c13ActionLit struct {
-	typ           ast.Expr
-	osm, old, new ast.Expr
-	extra         string
-}
-
-// c13ParseAction reads an osm.Action composite literal with keyed fields.
-func c13ParseAction(m *c13Model, e ast.Expr) (*c13ActionLit, bool) {
-	cl, ok := ast.Unparen(e).(*ast.CompositeLit)
-	if !ok || namedPath(m.info.TypeOf(cl)) != c13OsmPath+".Action" {
-		return nil, false
-	}
-	al := &c13ActionLit{}
-	for _, el := range cl.Elts {
-		kv, ok := el.(*ast.KeyValueExpr)
-		if !ok {
-			return nil, false
-		}
-		switch objOf(m.info, kv.Key) {
-		case types.Object(m.actType):
-			al.typ = kv.Value
-		case types.Object(m.actOSM):
-			al.osm = kv.Value
-		case types.Object(m.actOld):
-			al.old = kv.Value
-		case types.Object(m.actNew):
-			al.new = kv.Value
-		default:
-			al.extra = src(m.fset, kv.Key)
-		}
-	}
-	return al, true
-}
-
-// c13Held returns the variable x of `&osm.OSM{<Elems of kind k>: osm.<Elems>{x}}`.
-func c13Held(m *c13Model, e ast.Expr, k int) types.Object {
-	ue, ok := ast.Unparen(e).(*ast.UnaryExpr)
-	if !ok || ue.Op != token.AND {
-		return nil
-	}
-	cl, ok := ast.Unparen(ue.X).(*ast.CompositeLit)
-	if !ok || namedPath(m.info.TypeOf(cl)) != c13OsmPath+".OSM" || len(cl.Elts) != 1 {
-		return nil
-	}
-	kv, ok := cl.Elts[0].(*ast.KeyValueExpr)
-	if !ok || objOf(m.info, kv.Key) != types.Object(m.osmFields[k]) {
-		return nil
-	}
-	in, ok := ast.Unparen(kv.Value).(*ast.CompositeLit)
-	if !ok || len(in.Elts) != 1 {
-		return nil
-	}
-	return objOf(m.info, in.Elts[0])
-}
-
-type c13AppendSite struct {
-	stmt *ast.AssignStmt
-	lit  *c13ActionLit
-	blk  *cfg.Block
-}
-
-// c13ActionAppends lists the `acc = append(acc, osm.Action{...})` statements in a loop body.
-func c13ActionAppends(m *c13Model, g *cfg.CFG, body ast.Node) (sites []c13AppendSite, problem string) {
-	ast.Inspect(body, func(n ast.Node) bool {
-		as, ok := n.(*ast.AssignStmt)
-		if !ok || len(as.Rhs) != 1 {
-			return true
-		}
-		call, ok := ast.Unparen(as.Rhs[0]).(*ast.CallExpr)
-		if !ok || builtinName(m.info, call) != "append" {
-			return true
-		}
-		if sl, ok := m.info.TypeOf(call).Underlying().(*types.Slice); !ok || namedPath(sl.Elem()) != c13OsmPath+".Action" {
-			return true
-		}
-		if len(call.Args) != 2 || call.Ellipsis.IsValid() {
-			problem = "`" + src(m.fset, as) + "` does not append exactly one action"
-			return true
-		}
-		lit, ok := c13ParseAction(m, call.Args[1])
-		if !ok {
-			problem = "the appended action `" + src(m.fset, call.Args[1]) + "` is not a keyed osm.Action literal"
-			return true
-		}
-		b, _ := blockOf(g, as.Pos())
-		if b == nil {
-			problem = "append not found in the control-flow graph"
-			return true
-		}
-		sites = append(sites, c13AppendSite{as, lit, b})
-		return true
-	})
-	return
-}
-
-// c13VisibleAt finds the assignment to <e>.Visible in effect at the append site.
-func c13VisibleAt(m *c13Model, g *cfg.CFG, dom map[*cfg.Block]map[*cfg.Block]bool, loop *ast.RangeStmt, e types.Object, site c13AppendSite) (rhs ast.Expr, problem string) {
-	info := m.info
-	head, _ := c13LoopBlocks(g, loop)
-	var best *ast.AssignStmt
-	var all []*ast.AssignStmt
-	ast.Inspect(loop.Body, func(n ast.Node) bool {
-		as, ok := n.(*ast.AssignStmt)
-		if !ok {
-			return true
-		}
-		for _, l := range as.Lhs {
-			if c13FieldOfObj(info, l, e, "Visible") {
-				all = append(all, as)
-			}
-		}
-		return true
-	})
-	// The elements are pointers, so a write after the append (same iteration, on every path) counts as well.
-	inIter := func(from *cfg.Block) map[*cfg.Block]bool {
-		return reachableFrom([]*cfg.Block{from}, func(b *cfg.Block) bool { return b == head })
-	}
-	for _, as := range all {
-		if len(as.Lhs) != 1 || len(as.Rhs) != 1 || as.Tok != token.ASSIGN {
-			return nil, "`" + src(m.fset, as) + "` is not a plain assignment to Visible"
-		}
-		ab, _ := blockOf(g, as.Pos())
-		if ab == nil {
-			return nil, "Visible write not found in the control-flow graph"
-		}
-		onPath := false
-		switch {
-		case posDominates(g, dom, as.Pos(), site.stmt.Pos()):
-			onPath = true
-		case posDominates(g, dom, site.stmt.Pos(), as.Pos()):
-			// every way from the append back to the loop head passes the write
-			onPath = ab == site.blk || !reachableFrom(site.blk.Succs, func(b *cfg.Block) bool { return b == ab })[head]
-		}
-		if onPath {
-			if best == nil || posDominates(g, dom, best.Pos(), as.Pos()) {
-				best = as
-			} else if !posDominates(g, dom, as.Pos(), best.Pos()) {
-				return nil, "the writes to " + e.Name() + ".Visible are not in one line of control flow"
-			}
-			continue
-		}
-		if inIter(ab)[site.blk] || inIter(site.blk)[ab] {
-			return nil, "`" + src(m.fset, as) + "` writes Visible on some but not all paths through the append"
-		}
-	}
-	if best == nil {
-		return nil, "no assignment to " + e.Name() + ".Visible accompanies the append on every path: the change's own visible attribute (absent = false in an osmChange) is kept"
-	}
-	return best.Rhs[0], ""
-}
-
-// c13EvalVisible evaluates a visibility expression of addUpdate for the cases "action type is delete" / "is not delete".
-func c13EvalVisible(m *c13Model, e ast.Expr) (whenDelete, otherwise bool, how string, ok bool) {
-	info := m.info
-	if b, isC := c13ConstBool(info, e); isC {
-		return b, b, fmt.Sprintf("constant %v", b), true
-	}
-	typeTest := func(a c13Atom) (isDelete bool, ok bool) { // atom holds iff action type (==|!=) delete
-		x, y, op, okc := c13Cmp(a)
-		if !okc || (op != token.EQL && op != token.NEQ) {
-			return false, false
-		}
-		if c13ObjQ(info, x) == m.actDelete {
-			x, y = y, x
-		}
-		if objOf(info, x) != types.Object(m.typParam) || c13ObjQ(info, y) != m.actDelete {
-			return false, false
-		}
-		return op == token.EQL, true
-	}
-	if len(c13AssignsTo(info, m.addUpdate.Decl.Body, m.typParam)) != 0 {
-		return false, false, "the action type parameter is reassigned", false
-	}
-	if isDel, okT := typeTest(c13Atom{e: e, val: true}); okT {
-		return isDel, !isDel, "`" + src(m.fset, e) + "`", true
-	}
-	v, _ := objOf(info, e).(*types.Var)
-	if v == nil || v.IsField() {
-		return false, false, "`" + src(m.fset, e) + "` is neither a constant, a test of the action type against osm.ActionDelete, nor a local flag", false
-	}
-	var initV *bool
-	var initStmt ast.Node
-	whenDelete, otherwise = false, false
-	type gw struct {
-		val, onDelete bool
-		stmt          ast.Node
-	}
-	var guarded []gw
-	for _, a := range c13AssignsTo(info, m.addUpdate.Decl.Body, v) {
-		var val bool
-		if a.rhs == nil {
-			vs, isVS := a.stmt.(*ast.ValueSpec)
-			if !isVS || len(vs.Values) != 0 {
-				return false, false, "`" + src(m.fset, a.stmt) + "` writes the flag in an unrecognised way", false
-			}
-		} else {
-			b, isC := c13ConstBool(info, a.rhs)
-			if !isC {
-				return false, false, "`" + src(m.fset, a.stmt) + "` assigns a non-constant to the flag", false
-			}
-			val = b
-		}
-		for k := range c13Kinds {
-			if c13Within(a.stmt, m.updLoops[k]) {
-				return false, false, "the flag is written inside an element loop", false
-			}
-		}
-		blk, _ := blockOf(m.gAdd, a.stmt.Pos())
-		if blk == nil {
-			return false, false, "flag write not found in the control-flow graph", false
-		}
-		gs := c13GuardsAt(m.gAdd, m.domAdd, blk)
-		// ignore the `section == nil` early-return guard (about the section parameter, not the type)
-		var rel []c13Atom
-		for _, g := range gs {
-			if o, _, okN := c13NilTest(info, g); okN && o == types.Object(m.secParam) {
-				continue
-			}
-			rel = append(rel, g)
-		}
-		switch len(rel) {
-		case 0:
-			if initV != nil {
-				return false, false, "the flag has two unconditional writes", false
-			}
-			vv := val
-			initV, initStmt = &vv, a.stmt
-		case 1:
-			isDel, okT := typeTest(rel[0])
-			if !okT {
-				return false, false, "the flag is written under `" + src(m.fset, rel[0].e) + "`, which is not a test of the action type against osm.ActionDelete", false
-			}
-			guarded = append(guarded, gw{val, isDel, a.stmt})
-		default:
-			return false, false, "the flag is written under several conditions", false
-		}
-	}
-	if initV == nil {
-		return false, false, "the flag has no unconditional initialisation", false
-	}
-	whenDelete, otherwise = *initV, *initV
-	for _, w := range guarded {
-		if !posDominates(m.gAdd, m.domAdd, initStmt.Pos(), w.stmt.Pos()) {
-			return false, false, "the flag's initialisation does not dominate its conditional write", false
-		}
-		if w.onDelete {
-			whenDelete = w.val
-		} else {
-			otherwise = w.val
-		}
-	}
-	for k := range c13Kinds {
-		if h, _ := c13LoopBlocks(m.gAdd, m.updLoops[k]); h != nil {
-			for _, w := range guarded {
-				if wb, _ := blockOf(m.gAdd, w.stmt.Pos()); wb == nil || reachableFrom([]*cfg.Block{h}, nil)[wb] {
-					return false, false, "the flag is written after an element loop has started", false
-				}
-			}
-		}
-	}
-	return whenDelete, otherwise, fmt.Sprintf("flag %s: initialised %v, set to %v under the action-type test (%d conditional write(s))", v.Name(), *initV, whenDelete, len(guarded)), true
-}
-
-func c13S4(r *core.R) {
-	m := c13Load(r)
-	if m == nil {
-		return
-	}
-	info := m.info
-	// ---- create loops ---------------------------------------------------------------------------
-	for k := range c13Kinds {
-		c := "create@Change/" + c13Kinds[k].Elem
-		rs := m.createLoops[k]
-		e := types.Object(nil)
-		if rs.Value != nil {
-			e = objOf(info, rs.Value)
-		}
-		sites, problem := c13ActionAppends(m, m.gChange, rs.Body)
-		if e == nil || problem != "" || len(sites) == 0 {
-			r.Unknown(c, rs.Pos(), "create loop shape not recognised (%s); accepted: `for _, e := range o.X { e.Visible = true; acc = append(acc, osm.Action{Type: ActionCreate, OSM: &osm.OSM{X: {e}}}) }`", problem)
-			continue
-		}
-		bad := ""
-		for _, s := range sites {
-			vis, p := c13VisibleAt(m, m.gChange, m.domChange, rs, e, s)
-			switch {
-			case p != "":
-				bad = p
-			case c13ObjQ(info, s.lit.typ) != m.actCreate:
-				bad = fmt.Sprintf("a created %s gets action type `%s`, not osm.ActionCreate", c13Kinds[k].Elem, src(m.fset, s.lit.typ))
-			case s.lit.osm == nil || c13Held(m, s.lit.osm, k) != e:
-				bad = fmt.Sprintf("the create action does not hold the created element %s in OSM.%s: `%s`", e.Name(), c13Kinds[k].Elems, src(m.fset, s.stmt))
-			case s.lit.old != nil || s.lit.new != nil || s.lit.extra != "":
-				bad = "a create action carries Old/New or other fields"
-			default:
-				if b, isC := c13ConstBool(info, vis); !isC || !b {
-					bad = fmt.Sprintf("a created %s is marked `Visible = %s`, not visible", c13Kinds[k].Elem, src(m.fset, vis))
-				}
-			}
-		}
-		if bad != "" {
-			r.Bad(c, rs.Pos(), "%s", bad)
-		} else {
-			r.OK(c, rs.Pos(), "`%s.Visible = true` dominates the append of Action{Type: ActionCreate, OSM: {%s: {%s}}}", e.Name(), c13Kinds[k].Elems, e.Name())
-		}
-	}
-	// ---- update loops -----------------------------------------------------------------------------
-	flagSeen := map[string]bool{}
-	for k := range c13Kinds {
-		kn := c13Kinds[k]
-		rs := m.updLoops[k]
-		cF, cU := "fallback@"+m.addUpdate.Name()+"/"+kn.Elem, "update@"+m.addUpdate.Name()+"/"+kn.Elem
-		var e types.Object
-		if rs.Value != nil {
-			e = objOf(info, rs.Value)
-		}
-		var findAs *ast.AssignStmt
-		ast.Inspect(rs.Body, func(n ast.Node) bool {
-			if as, ok := n.(*ast.AssignStmt); ok && len(as.Rhs) == 1 && len(as.Lhs) == 2 {
-				if call, ok := ast.Unparen(as.Rhs[0]).(*ast.CallExpr); ok && callee(info, call) == m.find[k].Obj {
-					findAs = as
-				}
-			}
-			return true
-		})
-		sites, problem := c13ActionAppends(m, m.gAdd, rs.Body)
-		if e == nil || findAs == nil || problem != "" {
-			r.Unknown(cU, rs.Pos(), "update loop shape not recognised (%s); accepted: `old, err := %s(.., e, ..)` followed by appends of osm.Action literals", problem, m.find[k].Name())
-			continue
-		}
-		old := objOf(info, findAs.Lhs[0])
-		fcall := ast.Unparen(findAs.Rhs[0]).(*ast.CallExpr)
-		passesElem := false
-		for _, a := range fcall.Args {
-			if objOf(info, a) == e {
-				passesElem = true
-			}
-		}
-		if old == nil || !passesElem || len(c13AssignsTo(info, rs.Body, old)) != 1 {
-			r.Bad(cU, findAs.Pos(), "`%s` does not bind the predecessor of the loop element %s to a variable written once", src(m.fset, findAs), e.Name())
-			continue
-		}
-		var badF, badU string
-		nF, nU := 0, 0
-		for _, s := range sites {
-			branch := 0 // +1 old == nil, -1 old != nil
-			for _, a := range c13GuardsAt(m.gAdd, m.domAdd, s.blk) {
-				if o, isNil, ok := c13NilTest(info, a); ok && o == old {
-					branch = map[bool]int{true: 1, false: -1}[isNil]
-				}
-			}
-			vis, p := c13VisibleAt(m, m.gAdd, m.domAdd, rs, e, s)
-			switch branch {
-			case 0:
-				badU = fmt.Sprintf("`%s` is appended without a test of %s against nil deciding between create and %s", src(m.fset, s.stmt), old.Name(), "modify/delete")
-			case 1:
-				nF++
-				switch {
-				case p != "":
-					badF = p
-				case c13ObjQ(info, s.lit.typ) != m.actCreate:
-					badF = fmt.Sprintf("without a predecessor (%s == nil) the action type is `%s`, not osm.ActionCreate", old.Name(), src(m.fset, s.lit.typ))
-				case s.lit.osm == nil || c13Held(m, s.lit.osm, k) != e || s.lit.old != nil || s.lit.new != nil || s.lit.extra != "":
-					badF = fmt.Sprintf("the fallback create action does not hold exactly the change element %s in OSM.%s: `%s`", e.Name(), kn.Elems, src(m.fset, s.stmt))
-				default:
-					if b, isC := c13ConstBool(info, vis); !isC || !b {
-						badF = fmt.Sprintf("an element turned into a create (missing history ignored) is marked `Visible = %s`; a create must be visible even when the element came from the delete section", src(m.fset, vis))
-					}
-				}
-			case -1:
-				nU++
-				switch {
-				case p != "":
-					badU = p
-				case objOf(info, s.lit.typ) != types.Object(m.typParam):
-					badU = fmt.Sprintf("the action type is `%s`, not the caller's action type %s: elements of the other section get the wrong type", src(m.fset, s.lit.typ), m.typParam.Name())
-				case s.lit.old == nil || s.lit.new == nil || s.lit.osm != nil || s.lit.extra != "":
-					badU = fmt.Sprintf("a modify/delete action must carry exactly Old and New: `%s`", src(m.fset, s.stmt))
-				case c13Held(m, s.lit.old, k) != old:
-					badU = fmt.Sprintf("Old holds `%s`, not the history element %s returned by %s", src(m.fset, s.lit.old), old.Name(), m.find[k].Name())
-				case c13Held(m, s.lit.new, k) != e:
-					badU = fmt.Sprintf("New holds `%s`, not the change element %s", src(m.fset, s.lit.new), e.Name())
-				default:
-					wd, ow, how, ok := c13EvalVisible(m, vis)
-					key := src(m.fset, vis)
-					if !flagSeen[key] {
-						flagSeen[key] = true
-						cV := "visible-flag@" + m.addUpdate.Name()
-						switch {
-						case !ok:
-							r.Unknown(cV, vis.Pos(), "visibility expression not recognised: %s", how)
-						case wd || !ow:
-							r.Bad(cV, vis.Pos(), "the new state's Visible evaluates to %v for osm.ActionDelete and %v otherwise (%s); required false for delete, true for modify", wd, ow, how)
-						default:
-							r.OK(cV, vis.Pos(), "Visible is false exactly when the action type is osm.ActionDelete (%s)", how)
-						}
-					}
-					if !ok {
-						badU = "visibility expression not recognised: " + how
-					} else if wd || !ow {
-						badU = fmt.Sprintf("`%s.Visible = %s` is %v for delete and %v for modify; required false and true", e.Name(), key, wd, ow)
-					}
-				}
-			}
-		}
-		if nF == 0 && badF == "" {
-			badF = fmt.Sprintf("no create action under `%s == nil`: with missing histories ignored the element gets no create action", old.Name())
-		}
-		if nU == 0 && badU == "" {
-			badU = fmt.Sprintf("no action under `%s != nil`", old.Name())
-		}
-		if badF != "" {
-			r.Bad(cF, rs.Pos(), "%s", badF)
-		} else {
-			r.OK(cF, rs.Pos(), "under `%s == nil`: `%s.Visible = true` dominates the append of Action{Type: ActionCreate, OSM: {%s: {%s}}}", old.Name(), e.Name(), kn.Elems, e.Name())
-		}
-		if badU != "" {
-			r.Bad(cU, rs.Pos(), "%s", badU)
-		} else {
-			r.OK(cU, rs.Pos(), "under `%s != nil`: Type is the caller's %s, Old holds %s (result of %s), New holds the loop element %s whose Visible is false iff delete", old.Name(), m.typParam.Name(), old.Name(), m.find[k].Name(), e.Name())
-		}
-	}
-}
-
-// ---------------------------------------------------------------------------------------------
-// S5 error mapping
-
-func c13S5(r *core.R) {
-	m := c13Load(r)
-	if m == nil {
-		return
-	}
-	info := m.info
-	ce := m.checkErr
-	cn := ce.Name()
-	sig := ce.Obj.Type().(*types.Signature)
-	errT := types.Universe.Lookup("error").Type()
-	var errP, ignP, idP, dsP *types.Var
-	nb := 0
-	for i := 0; i < sig.Params().Len(); i++ {
-		p := sig.Params().At(i)
-		switch {
-		case types.Identical(p.Type(), errT):
-			errP = p
-		case types.Identical(p.Type(), types.Typ[types.Bool]):
-			ignP = p
-			nb++
-		case namedPath(p.Type()) == c13OsmPath+".FeatureID":
-			idP = p
-		case namedPath(p.Type()) == c13OsmPath+".HistoryDatasourcer":
-			dsP = p
-		}
-	}
-	if errP == nil || ignP == nil || idP == nil || dsP == nil || nb != 1 {
-		r.Unknown("return@"+cn, ce.Decl.Pos(), "parameters not recognised: need error, one bool, osm.FeatureID, osm.HistoryDatasourcer")
-		return
-	}
-	for _, p := range []*types.Var{errP, ignP, idP, dsP} {
-		if len(c13AssignsTo(info, ce.Decl.Body, p)) != 0 {
-			r.Unknown("return@"+cn, ce.Decl.Pos(), "parameter %s is reassigned", p.Name())
-			return
-		}
-	}
-	g := newCFG(info, ce.Decl.Body)
-	dom := dominators(g)
-	r.Stat("functions", 1)
-	tri := func(v int) string { return map[int]string{1: "", -1: "!", 0: "?"}[v] }
-	nret := 0
-	for _, b := range g.Blocks {
-		if !b.Live {
-			continue
-		}
-		ret := c13ReturnOf(b)
-		if ret == nil {
-			continue
-		}
-		nret++
-		errNil, notFound, ign := 0, 0, 0
-		problem := ""
-		for _, a := range c13GuardsAt(g, dom, b) {
-			if o := objOf(info, a.e); o == types.Object(ignP) {
-				ign = map[bool]int{true: 1, false: -1}[a.val]
-				continue
-			}
-			if o, isNil, ok := c13NilTest(info, a); ok && o == types.Object(errP) {
-				errNil = map[bool]int{true: 1, false: -1}[isNil]
-				continue
-			}
-			if call, ok := ast.Unparen(a.e).(*ast.CallExpr); ok && isMethod(callee(info, call), c13OsmPath+".HistoryDatasourcer", "NotFound") &&
-				len(call.Args) == 1 && objOf(info, call.Args[0]) == types.Object(errP) {
-				notFound = map[bool]int{true: 1, false: -1}[a.val]
-				continue
-			}
-			problem = "unrecognised guard `" + src(m.fset, a.e) + "`"
-		}
-		class := "?"
-		if len(ret.Results) == 1 {
-			res := ret.Results[0]
-			switch {
-			case c13IsNil(info, res):
-				class = "nil"
-			case objOf(info, res) == types.Object(errP):
-				class = "err"
-			default:
-				if tn, id, ok := c13TypedErr(m, res); ok {
-					class = "typed"
-					if objOf(info, id) != types.Object(idP) {
-						problem = fmt.Sprintf("the %s's ID `%s` is not the id parameter %s", tn, src(m.fset, id), idP.Name())
-					}
-				}
-			}
-		}
-		c := fmt.Sprintf("return@%s %s[%serr==nil,%snotfound,%signore]", cn, class, tri(errNil), tri(notFound), tri(ign))
-		what := fmt.Sprintf("`%s` under {err==nil:%s notFound:%s ignoreMissing:%s}", src(m.fset, ret), c13Tri(errNil), c13Tri(notFound), c13Tri(ign))
-		switch {
-		case problem != "":
-			r.Unknown(c, ret.Pos(), "%s", problem)
-		case class == "?":
-			r.Unknown(c, ret.Pos(), "`%s` returns neither nil, the error parameter nor a typed annotate error", src(m.fset, ret))
-		case class == "nil" && !(errNil == 1 || (notFound == 1 && ign == 1)):
-			r.Bad(c, ret.Pos(), "%s swallows an error: nil may be returned only for a nil error or for a not-found error when missing histories are ignored; the caller then turns the element into a create action", what)
-		case class == "typed" && !(notFound == 1 && ign == -1):
-			r.Bad(c, ret.Pos(), "%s: the typed error belongs to not-found errors when missing histories are not ignored, and only there", what)
-		case class == "err" && !(errNil == 1 || notFound == -1):
-			r.Bad(c, ret.Pos(), "%s: a not-found error is passed through instead of being mapped (nil under ignoreMissing, typed error otherwise)", what)
-		default:
-			r.OK(c, ret.Pos(), "%s is the required mapping", what)
-		}
-	}
-	if nret < 3 {
-		r.Bad("return@"+cn+" coverage", ce.Decl.Pos(), "%s has only %d return(s): the three outcomes nil / typed error / unchanged error cannot all be produced", cn, nret)
-	}
-
-	// ---- call sites ---------------------------------------------------------------------------------
-	addSig := m.addUpdate.Obj.Type().(*types.Signature)
-	var addDs *types.Var
-	for i := 0; i < addSig.Params().Len(); i++ {
-		if p := addSig.Params().At(i); namedPath(p.Type()) == c13OsmPath+".HistoryDatasourcer" {
-			addDs = p
-		}
-	}
-	for k := range c13Kinds {
-		kn := c13Kinds[k]
-		c := "call@" + m.addUpdate.Name() + "/" + kn.Elem
-		rs := m.updLoops[k]
-		var e types.Object
-		if rs.Value != nil {
-			e = objOf(info, rs.Value)
-		}
-		var findAs *ast.AssignStmt
-		var ceCall *ast.CallExpr
-		nce := 0
-		ast.Inspect(rs.Body, func(n ast.Node) bool {
-			switch x := n.(type) {
-			case *ast.AssignStmt:
-				if len(x.Rhs) == 1 && len(x.Lhs) == 2 {
-					if call, ok := ast.Unparen(x.Rhs[0]).(*ast.CallExpr); ok && callee(info, call) == m.find[k].Obj {
-						findAs = x
-					}
-				}
-			case *ast.CallExpr:
-				if callee(info, x) == ce.Obj {
-					ceCall = x
-					nce++
-				}
-			}
-			return true
-		})
-		if e == nil || findAs == nil || ceCall == nil || nce != 1 {
-			r.Unknown(c, rs.Pos(), "expected one `old, err := %s(...)` and one call of %s in the loop over %s", m.find[k].Name(), cn, kn.Elems)
-			continue
-		}
-		fcall := ast.Unparen(findAs.Rhs[0]).(*ast.CallExpr)
-		ferr := objOf(info, findAs.Lhs[1])
-		var findIgn, findDs *types.Var
-		fsig := m.find[k].Obj.Type().(*types.Signature)
-		for i := 0; i < fsig.Params().Len(); i++ {
-			p := fsig.Params().At(i)
-			if types.Identical(p.Type(), types.Typ[types.Bool]) {
-				findIgn = p
-			}
-			if namedPath(p.Type()) == c13OsmPath+".HistoryDatasourcer" {
-				findDs = p
-			}
-		}
-		// result handling: res := checkErr(...); res != nil -> return ..., res ; dominates every append
-		cas := c13CallAssign(rs.Body, ceCall)
-		var res types.Object
-		if cas != nil && len(cas.Lhs) == 1 {
-			res = objOf(info, cas.Lhs[0])
-		}
-		bad := ""
-		switch {
-		case ferr == nil:
-			bad = fmt.Sprintf("`%s` discards the search error", src(m.fset, findAs))
-		case objOf(info, c13ArgFor(ce.Obj, ceCall, errP)) != ferr:
-			bad = fmt.Sprintf("`%s` is not handed the error of `%s`", src(m.fset, ceCall), src(m.fset, fcall))
-		case !c13IsFeatureIDOf(info, c13ArgFor(ce.Obj, ceCall, idP), e):
-			bad = fmt.Sprintf("`%s` does not identify the loop element: the id argument `%s` is not %s.FeatureID()", src(m.fset, ceCall), src(m.fset, c13ArgFor(ce.Obj, ceCall, idP)), e.Name())
-		case objOf(info, c13ArgFor(ce.Obj, ceCall, ignP)) != types.Object(m.ignPar):
-			bad = fmt.Sprintf("`%s` passes `%s` as ignore-missing flag instead of the caller's option %s", src(m.fset, ceCall), src(m.fset, c13ArgFor(ce.Obj, ceCall, ignP)), m.ignPar.Name())
-		case findIgn == nil || objOf(info, c13ArgFor(m.find[k].Obj, fcall, findIgn)) != types.Object(m.ignPar):
-			bad = fmt.Sprintf("`%s` is not handed the caller's ignore-missing option %s", src(m.fset, fcall), m.ignPar.Name())
-		case addDs == nil || findDs == nil || objOf(info, c13ArgFor(m.find[k].Obj, fcall, findDs)) != types.Object(addDs) || objOf(info, c13ArgFor(ce.Obj, ceCall, dsP)) != types.Object(addDs):
-			bad = "the search and the error mapper are not handed the caller's datasource"
-		case res == nil:
-			bad = fmt.Sprintf("the result of `%s` is not bound to a variable and tested", src(m.fset, ceCall))
-		case !posDominates(m.gAdd, m.domAdd, findAs.Pos(), ceCall.Pos()):
-			bad = "the error mapper is not dominated by the search whose error it maps"
-		case !c13ErrReturned(info, m.gAdd, m.domAdd, cas, res):
-			bad = fmt.Sprintf("a non-nil result of `%s` is not returned as the error", src(m.fset, ceCall))
-		}
-		if bad == "" {
-			sites, _ := c13ActionAppends(m, m.gAdd, rs.Body)
-			for _, s := range sites {
-				if !posDominates(m.gAdd, m.domAdd, ceCall.Pos(), s.stmt.Pos()) {
-					bad = fmt.Sprintf("`%s` is reachable without the error of the search having been checked", src(m.fset, s.stmt))
-				}
-			}
-		}
-		if bad != "" {
-			r.Bad(c, ceCall.Pos(), "%s", bad)
-		} else {
-			r.OK(c, ceCall.Pos(), "`%s` maps the error of `%s` with the element's FeatureID and the caller's option; a non-nil result is returned before any action is appended", src(m.fset, ceCall), src(m.fset, fcall))
-		}
-	}
-
-	// ---- the option -------------------------------------------------------------------------------------
-	c := "ignore-option@Change"
-	bad := ""
-	for _, call := range []*ast.CallExpr{m.modCall, m.delCall} {
-		a := c13ArgFor(m.addUpdate.Obj, call, m.ignPar)
-		isOpt := func(e ast.Expr) bool {
-			f := fieldOf(info, e)
-			return f != nil && f.Name() == "IgnoreMissingChildren" && f.Pkg() != nil && f.Pkg().Path() == c13OsmPath+"/annotate/internal/core"
-		}
-		if isOpt(a) {
-			continue
-		}
-		v := objOf(info, a)
-		as := []c13Assign(nil)
-		if v != nil {
-			as = c13AssignsTo(info, m.change.Decl.Body, v)
-		}
-		if v == nil || len(as) != 1 || as[0].rhs == nil || !isOpt(as[0].rhs) {
-			bad = fmt.Sprintf("`%s` is handed `%s` as ignore-missing flag, which is not Options.IgnoreMissingChildren", src(m.fset, call.Fun), src(m.fset, a))
-		}
-	}
-	if bad != "" {
-		r.Bad(c, m.modCall.Pos(), "%s", bad)
-	} else {
-		r.OK(c, m.modCall.Pos(), "both calls of %s receive Options.IgnoreMissingChildren as computed from the caller's options", m.addUpdate.Name())
-	}
-}
-
-func c13Tri(v int) string {
-	switch v {
-	case 1:
-		return "true"
-	case -1:
-		return "false"
-	}
-	return "either"
 }
